@@ -1,1 +1,2708 @@
-// placeholder: c14 monitors (not built yet)
+// C14 Send and receive buffers behave as an ordered byte queue under all interleavings.
+//
+// (A) CircularBuf   : lock-step model test against a reference VecDeque<u8> (exhaustive op sequences + seeded).
+// (B) OrderingSender: unique-payload histories with n<=6 writers + closer + reader, judged from an event log;
+//                     executors: vlib::Manual (poll-level DFS + seeded), real threads (tokio mt), shuttle (b2).
+// (C) UnorderedReceiver: all chunkings x all request orders x timings under vlib::Manual, seeded larger cases.
+// (D) small workloads on std threads suitable for Miri (also run natively).
+//
+// This file is module `crate::helpers::buffers::verif_buffers::c14`.
+
+use std::{
+    collections::{HashSet, VecDeque},
+    convert::Infallible,
+    fmt::Debug,
+    future::Future,
+    num::NonZeroUsize,
+    pin::Pin,
+    sync::{Arc as StdArc, Mutex as StdMutex},
+    task::{Context, Poll, Waker},
+};
+
+use futures::{Stream, future::poll_fn};
+use generic_array::{ArrayLength, GenericArray};
+use serde_json::{Value, json};
+use typenum::{U1, U2, U3, U4, U8};
+
+use super::super::{
+    circular::CircularBuf,
+    ordering_sender::OrderingSender,
+    unordered_receiver::{Error as RecvError, UnorderedReceiver},
+};
+use crate::{
+    ff::Serializable,
+    sync::Arc as CArc,
+    verif::vlib::{self, Recorder, VRng, catch, hex},
+};
+
+// ---------------------------------------------------------------------------------------------
+// shared: messages, findings, replay
+// ---------------------------------------------------------------------------------------------
+
+/// A fixed-size message whose bytes encode its index.
+#[derive(Clone, PartialEq, Eq)]
+pub struct Msg<N: ArrayLength>(pub GenericArray<u8, N>);
+
+impl<N: ArrayLength> Debug for Msg<N> {
+    fn fmt(&self, f: &mut std::fmt::Formatter<'_>) -> std::fmt::Result {
+        write!(f, "Msg({})", hex(&self.0))
+    }
+}
+
+impl<N: ArrayLength> Serializable for Msg<N> {
+    type Size = N;
+    type DeserializationError = Infallible;
+
+    fn serialize(&self, buf: &mut GenericArray<u8, Self::Size>) {
+        buf.copy_from_slice(&self.0);
+    }
+
+    fn deserialize(buf: &GenericArray<u8, Self::Size>) -> Result<Self, Self::DeserializationError> {
+        Ok(Msg(buf.clone()))
+    }
+}
+
+/// Byte `j` of the message with index `i`.
+fn pbyte(i: usize, j: usize) -> u8 {
+    match j {
+        0 => i as u8,
+        1 => ((i >> 8) as u8) ^ 0x5a,
+        _ => ((i.wrapping_mul(37)) ^ (j.wrapping_mul(101)) ^ 0xc3) as u8,
+    }
+}
+
+fn payload(i: usize, ws: usize) -> Vec<u8> {
+    (0..ws).map(|j| pbyte(i, j)).collect()
+}
+
+fn mk_msg<N: ArrayLength>(i: usize) -> Msg<N> {
+    let mut a = GenericArray::<u8, N>::default();
+    for (j, b) in a.iter_mut().enumerate() {
+        *b = pbyte(i, j);
+    }
+    Msg(a)
+}
+
+macro_rules! with_ws {
+    ($ws:expr, $N:ident => $body:expr) => {
+        match $ws {
+            1 => {
+                type $N = U1;
+                $body
+            }
+            2 => {
+                type $N = U2;
+                $body
+            }
+            3 => {
+                type $N = U3;
+                $body
+            }
+            4 => {
+                type $N = U4;
+                $body
+            }
+            8 => {
+                type $N = U8;
+                $body
+            }
+            other => panic!("harness: unsupported message size {other}"),
+        }
+    };
+}
+
+const SIZES: &[usize] = &[1, 2, 3, 4, 8];
+
+#[derive(Debug, Clone)]
+struct Finding {
+    what: String,
+    sig: Value,
+    detail: Value,
+}
+
+fn finding(what: &str, sig: Value, detail: Value) -> Finding {
+    Finding { what: what.to_string(), sig, detail }
+}
+
+fn replay_witness() -> Option<Value> {
+    let p = vlib::env().replay?;
+    let w: Value = serde_json::from_str(&std::fs::read_to_string(p).ok()?).ok()?;
+    Some(w["witness"].clone())
+}
+
+fn replay_case() -> Option<usize> {
+    replay_witness()?["case"].as_u64().map(|v| v as usize)
+}
+
+fn panic_class(msg: &str) -> String {
+    let mut s: String = msg.chars().map(|c| if c.is_ascii_digit() { '#' } else { c }).collect();
+    while s.contains("##") {
+        s = s.replace("##", "#");
+    }
+    s.truncate(80);
+    s
+}
+
+// ---------------------------------------------------------------------------------------------
+// (A) CircularBuf against a reference queue
+// ---------------------------------------------------------------------------------------------
+
+#[derive(Clone, Copy, PartialEq, Eq, Debug, Hash)]
+enum Op {
+    Write,
+    Take,
+    Close,
+}
+
+impl Op {
+    fn ch(self) -> char {
+        match self {
+            Op::Write => 'W',
+            Op::Take => 'T',
+            Op::Close => 'C',
+        }
+    }
+    fn from_digit(d: usize) -> Op {
+        match d {
+            0 => Op::Write,
+            1 => Op::Take,
+            _ => Op::Close,
+        }
+    }
+}
+
+/// The reference: a plain byte queue with the documented admission rules.
+struct RefQ {
+    q: VecDeque<u8>,
+    cap: usize,
+    ws: usize,
+    rs: usize,
+    closed: bool,
+}
+
+impl RefQ {
+    fn can_write(&self) -> bool {
+        !self.closed && self.cap - self.q.len() >= self.ws
+    }
+    fn can_read(&self) -> bool {
+        if self.closed { !self.q.is_empty() } else { self.q.len() >= self.rs }
+    }
+    fn take(&mut self) -> Vec<u8> {
+        if !self.can_read() {
+            return Vec::new();
+        }
+        let k = self.rs.min(self.q.len());
+        self.q.drain(..k).collect()
+    }
+}
+
+#[derive(Default)]
+struct RingStats {
+    writes_ok: u64,
+    rejected_full: u64,
+    rejected_closed: u64,
+    takes_nonempty: u64,
+    takes_empty: u64,
+    takes_short_after_close: u64,
+    closes: u64,
+    close_rejected: u64,
+    wraps: u64,
+    full_hits: u64,
+    observer_checks: u64,
+}
+
+struct Ring {
+    buf: CircularBuf,
+    r: RefQ,
+    wcount: usize,
+    written_bytes: usize,
+    hist: String,
+    stats: RingStats,
+}
+
+impl Ring {
+    fn new(cap: usize, ws: usize, rs: usize) -> Result<Ring, String> {
+        let buf = catch(|| CircularBuf::new(cap, ws, rs))?;
+        Ok(Ring {
+            buf,
+            r: RefQ { q: VecDeque::new(), cap, ws, rs, closed: false },
+            wcount: 0,
+            written_bytes: 0,
+            hist: String::new(),
+            stats: RingStats::default(),
+        })
+    }
+
+    fn cfg(&self) -> Value {
+        json!({"capacity": self.r.cap, "write_size": self.r.ws, "read_size": self.r.rs})
+    }
+
+    fn fail(&self, what: &str, kind: &str, extra: Value) -> Finding {
+        finding(
+            what,
+            json!({"component": "CircularBuf", "kind": kind}),
+            json!({"cfg": self.cfg(), "ops": self.hist, "extra": extra}),
+        )
+    }
+
+    fn observers(&mut self) -> Result<(), Finding> {
+        self.stats.observer_checks += 1;
+        let b = &self.buf;
+        let got = catch(|| (b.len(), b.can_read(), b.can_write(), b.is_closed(), b.capacity()));
+        let want = (self.r.q.len(), self.r.can_read(), self.r.can_write(), self.r.closed, self.r.cap);
+        match got {
+            Err(p) => Err(self.fail("observer panicked", "observer_panic", json!({"panic": p}))),
+            Ok(g) if g != want => {
+                let which = if g.0 != want.0 {
+                    "len"
+                } else if g.1 != want.1 {
+                    "can_read"
+                } else if g.2 != want.2 {
+                    "can_write"
+                } else if g.3 != want.3 {
+                    "is_closed"
+                } else {
+                    "capacity"
+                };
+                Err(self.fail(
+                    "observer disagrees with the reference queue",
+                    &format!("observer:{which}"),
+                    json!({"got(len,can_read,can_write,closed,cap)": format!("{g:?}"), "want": format!("{want:?}")}),
+                ))
+            }
+            Ok(_) => Ok(()),
+        }
+    }
+
+    /// Apply one operation to both; `Ok(false)` = operation skipped (not meaningful in this build).
+    fn step(&mut self, op: Op) -> Result<bool, Finding> {
+        let strict = cfg!(debug_assertions);
+        match op {
+            Op::Write => {
+                let allowed = self.r.can_write();
+                if !allowed && !strict {
+                    return Ok(false);
+                }
+                self.hist.push('W');
+                let data = payload(self.wcount, self.r.ws);
+                let buf = &mut self.buf;
+                let res = catch(|| buf.next().write(data.as_slice()));
+                match (allowed, res) {
+                    (true, Ok(())) => {
+                        self.r.q.extend(data.iter().copied());
+                        self.wcount += 1;
+                        let before = self.written_bytes / (2 * self.r.cap);
+                        self.written_bytes += self.r.ws;
+                        if self.written_bytes / (2 * self.r.cap) != before {
+                            self.stats.wraps += 1;
+                        }
+                        self.stats.writes_ok += 1;
+                        if self.r.q.len() == self.r.cap {
+                            self.stats.full_hits += 1;
+                        }
+                    }
+                    (true, Err(p)) => {
+                        return Err(self.fail(
+                            "write rejected although the reference queue has room",
+                            "write_rejected",
+                            json!({"panic": p}),
+                        ));
+                    }
+                    (false, Ok(())) => {
+                        let kind = if self.r.closed { "write_admitted_closed" } else { "write_admitted_full" };
+                        return Err(self.fail(
+                            "write admitted although the buffer is full/closed",
+                            kind,
+                            json!({"ref_len": self.r.q.len()}),
+                        ));
+                    }
+                    (false, Err(_)) => {
+                        if self.r.closed {
+                            self.stats.rejected_closed += 1;
+                        } else {
+                            self.stats.rejected_full += 1;
+                        }
+                    }
+                }
+            }
+            Op::Take => {
+                self.hist.push('T');
+                let was_closed = self.r.closed;
+                let want = self.r.take();
+                let buf = &mut self.buf;
+                match catch(|| buf.take()) {
+                    Err(p) => return Err(self.fail("take panicked", "take_panic", json!({"panic": p}))),
+                    Ok(got) if got != want => {
+                        let kind = if got.len() != want.len() { "take_len" } else { "take_bytes" };
+                        return Err(self.fail(
+                            "take returned different bytes than the reference queue",
+                            kind,
+                            json!({"got": hex(&got), "want": hex(&want)}),
+                        ));
+                    }
+                    Ok(got) => {
+                        if got.is_empty() {
+                            self.stats.takes_empty += 1;
+                        } else {
+                            self.stats.takes_nonempty += 1;
+                            if was_closed && got.len() < self.r.rs {
+                                self.stats.takes_short_after_close += 1;
+                            }
+                        }
+                    }
+                }
+            }
+            Op::Close => {
+                let allowed = !self.r.closed;
+                if !allowed && !strict {
+                    return Ok(false);
+                }
+                self.hist.push('C');
+                let buf = &mut self.buf;
+                let res = catch(|| buf.close());
+                match (allowed, res) {
+                    (true, Ok(())) => {
+                        self.r.closed = true;
+                        self.stats.closes += 1;
+                    }
+                    (true, Err(p)) => return Err(self.fail("close panicked", "close_panic", json!({"panic": p}))),
+                    (false, Ok(())) => {
+                        return Err(self.fail("second close accepted silently", "double_close", json!({})));
+                    }
+                    (false, Err(_)) => self.stats.close_rejected += 1,
+                }
+            }
+        }
+        self.observers()?;
+        Ok(true)
+    }
+
+    /// Move both cursors by `k` read-size blocks (write a block, take it).
+    fn advance(&mut self, k: usize) -> Result<(), Finding> {
+        for _ in 0..k {
+            for _ in 0..(self.r.rs / self.r.ws) {
+                self.step(Op::Write)?;
+            }
+            self.step(Op::Take)?;
+        }
+        self.hist.push('|');
+        Ok(())
+    }
+}
+
+fn flush_ring_stats(rec: &mut Recorder, s: &RingStats) {
+    rec.add("ring_writes_ok", s.writes_ok);
+    rec.add("ring_write_rejected_full", s.rejected_full);
+    rec.add("ring_write_rejected_closed", s.rejected_closed);
+    rec.add("ring_takes_nonempty", s.takes_nonempty);
+    rec.add("ring_takes_empty", s.takes_empty);
+    rec.add("ring_takes_short_after_close", s.takes_short_after_close);
+    rec.add("ring_closes", s.closes);
+    rec.add("ring_close_rejected", s.close_rejected);
+    rec.add("ring_cursor_wraps", s.wraps);
+    rec.add("ring_full_hits", s.full_hits);
+    rec.add("ring_observer_checks", s.observer_checks);
+}
+
+fn report(rec: &mut Recorder, f: Finding, case: usize, mut extra: Value) {
+    if let Some(o) = extra.as_object_mut() {
+        o.insert("case".into(), json!(case));
+        o.insert("detail".into(), f.detail.clone());
+    }
+    rec.violation(&f.what, f.sig, extra);
+}
+
+#[test]
+fn verif_c14_ring_exhaustive() {
+    let env = vlib::env();
+    let mut rec = Recorder::new("C14", "verif_c14_ring_exhaustive");
+    let depth: usize = env.pick(8, 9);
+    let only = replay_case();
+    let tail = 3usize.pow((depth - 2) as u32);
+    let mut case = 0usize;
+    let mut stats = RingStats::default();
+
+    // constructor contract (debug builds): zero sizes / non-dividing sizes are rejected loudly
+    if env.shard == 0 && only.is_none() && cfg!(debug_assertions) {
+        for (c, w, r, ok) in [
+            (0, 0, 0, false),
+            (2, 0, 0, false),
+            (2, 2, 0, false),
+            (3, 2, 2, false),
+            (6, 2, 3, false),
+            (6, 3, 2, false),
+            (6, 2, 4, true),
+            (5, 1, 5, true),
+        ] {
+            rec.eval();
+            let got = catch(|| CircularBuf::new(c, w, r)).is_ok();
+            if got != ok {
+                rec.violation(
+                    "constructor accepted/rejected parameters against its contract",
+                    json!({"component": "CircularBuf", "kind": "ctor", "accepted": got}),
+                    json!({"case": 0, "capacity": c, "write_size": w, "read_size": r}),
+                );
+            } else {
+                rec.count("ring_ctor_checks");
+            }
+        }
+    }
+
+    'outer: for ws in [1usize, 2, 3] {
+        for cap_units in 1usize..=5 {
+            for rs_units in 1..=cap_units {
+                let (cap, rs) = (cap_units * ws, rs_units * ws);
+                // every distinct cursor origin reachable with whole read blocks
+                let mut origins: Vec<usize> = Vec::new();
+                let mut seen = HashSet::new();
+                for k in 0..(2 * cap_units) {
+                    if seen.insert((k * rs) % (2 * cap)) {
+                        origins.push(k);
+                    }
+                }
+                for &origin in &origins {
+                    for p in 0..9usize {
+                        let idx = case;
+                        case += 1;
+                        if !env.mine(idx) || only.is_some_and(|c| c != idx) {
+                            continue;
+                        }
+                        rec.seen("ring_triples", format!("{cap}/{ws}/{rs}"));
+                        for t in 0..tail {
+                            let mut ops = vec![Op::from_digit(p / 3), Op::from_digit(p % 3)];
+                            let mut x = t;
+                            for _ in 0..(depth - 2) {
+                                ops.push(Op::from_digit(x % 3));
+                                x /= 3;
+                            }
+                            rec.eval();
+                            let mut ring = match Ring::new(cap, ws, rs) {
+                                Ok(r) => r,
+                                Err(p) => {
+                                    rec.violation(
+                                        "constructor panicked on valid parameters",
+                                        json!({"component": "CircularBuf", "kind": "ctor_panic"}),
+                                        json!({"case": idx, "capacity": cap, "write_size": ws, "read_size": rs, "panic": p}),
+                                    );
+                                    continue;
+                                }
+                            };
+                            let mut res = ring.advance(origin);
+                            if res.is_ok() {
+                                for &op in &ops {
+                                    if let Err(f) = ring.step(op) {
+                                        res = Err(f);
+                                        break;
+                                    }
+                                }
+                            }
+                            let s = &ring.stats;
+                            if s.writes_ok > (origin * rs_units) as u64 && s.takes_nonempty > origin as u64 {
+                                rec.distinct(&(cap, ws, rs, origin, p, t));
+                                if rec.want_sample() {
+                                    rec.sample(serde_json::json!({"ring_case": {"capacity": cap, "write_size": ws, "read_size": rs, "cursor_origin": origin}}));
+                                }
+                            }
+                            merge_ring(&mut stats, &ring.stats);
+                            if let Err(f) = res {
+                                let seq: String = ops.iter().map(|o| o.ch()).collect();
+                                report(&mut rec, f, idx, json!({"origin_blocks": origin, "sequence": seq}));
+                                if rec.n_violations() >= 20 {
+                                    break 'outer;
+                                }
+                            } else if rec.want_sample() && t == tail / 2 && p == 1 {
+                                rec.sample(json!({"cfg": ring.cfg(), "origin_blocks": origin, "ops": ring.hist}));
+                            }
+                        }
+                    }
+                }
+            }
+        }
+    }
+    flush_ring_stats(&mut rec, &stats);
+    rec.finish();
+}
+
+fn merge_ring(a: &mut RingStats, b: &RingStats) {
+    a.writes_ok += b.writes_ok;
+    a.rejected_full += b.rejected_full;
+    a.rejected_closed += b.rejected_closed;
+    a.takes_nonempty += b.takes_nonempty;
+    a.takes_empty += b.takes_empty;
+    a.takes_short_after_close += b.takes_short_after_close;
+    a.closes += b.closes;
+    a.close_rejected += b.close_rejected;
+    a.wraps += b.wraps;
+    a.full_hits += b.full_hits;
+    a.observer_checks += b.observer_checks;
+}
+
+#[test]
+fn verif_c14_ring_seeded() {
+    let env = vlib::env();
+    let mut rec = Recorder::new("C14", "verif_c14_ring_seeded");
+    let cases: usize = env.pick(4000, 40000);
+    let only = replay_case();
+    let mut stats = RingStats::default();
+    for idx in 0..cases {
+        if !env.mine(idx) || only.is_some_and(|c| c != idx) {
+            continue;
+        }
+        let mut r = VRng::new(env.seed ^ 0xC14A, idx as u64);
+        let ws = *r.choose(&[1usize, 2, 3, 4, 5, 7, 8, 16]);
+        let cap_units = r.range(1, 24) as usize;
+        let rs_units = r.range(1, cap_units as u64) as usize;
+        let (cap, rs) = (cap_units * ws, rs_units * ws);
+        let n_ops = r.range(40, 800) as usize;
+        let close_at = if r.below(4) == 0 { usize::MAX } else { r.range(10, n_ops as u64) as usize };
+        rec.eval();
+        let mut ring = match Ring::new(cap, ws, rs) {
+            Ok(x) => x,
+            Err(p) => {
+                rec.violation(
+                    "constructor panicked on valid parameters",
+                    json!({"component": "CircularBuf", "kind": "ctor_panic"}),
+                    json!({"case": idx, "capacity": cap, "write_size": ws, "read_size": rs, "panic": p}),
+                );
+                continue;
+            }
+        };
+        // the write bias drifts so that the queue hovers near full, then near empty
+        let mut bias = r.range(20, 80);
+        let mut res = Ok(true);
+        for k in 0..n_ops {
+            if k % 37 == 0 {
+                bias = r.range(15, 85);
+            }
+            let op = if k == close_at {
+                Op::Close
+            } else if r.below(100) < bias {
+                Op::Write
+            } else if r.below(60) == 0 {
+                Op::Close
+            } else {
+                Op::Take
+            };
+            res = ring.step(op);
+            if res.is_err() {
+                break;
+            }
+        }
+        if res.is_ok() {
+            // drain: after close everything written must come out
+            if !ring.r.closed {
+                res = ring.step(Op::Close);
+            }
+            let mut guard = 0;
+            while res.is_ok() && !ring.r.q.is_empty() && guard < 10_000 {
+                res = ring.step(Op::Take);
+                guard += 1;
+            }
+        }
+        merge_ring(&mut stats, &ring.stats);
+        match res {
+            Err(f) => report(&mut rec, f, idx, json!({})),
+            Ok(_) => {
+                if ring.stats.wraps > 0 && ring.stats.full_hits > 0 {
+                    rec.distinct(&(cap, ws, rs, fxh(&ring.hist)));
+                }
+                if rec.want_sample() {
+                    let mut h = ring.hist.clone();
+                    h.truncate(120);
+                    rec.sample(json!({"cfg": ring.cfg(), "ops_prefix": h, "n_ops": ring.hist.len()}));
+                }
+            }
+        }
+    }
+    flush_ring_stats(&mut rec, &stats);
+    rec.finish();
+}
+
+fn fxh<T: std::hash::Hash>(t: &T) -> u64 {
+    vlib::fxhash(t)
+}
+
+// ---------------------------------------------------------------------------------------------
+// (B) OrderingSender: histories, event log, oracle
+// ---------------------------------------------------------------------------------------------
+
+#[derive(Clone, Debug, PartialEq, Eq, Hash)]
+enum Ev {
+    /// writer polled `send(i)`
+    WPoll(usize),
+    /// that poll returned Pending (blocked on order or on a full buffer)
+    WPend(usize),
+    /// `send(i)` completed
+    WDone(usize),
+    CPoll,
+    CDone,
+    /// reader polls `take_next`
+    RPoll,
+    RPend,
+    Chunk(Vec<u8>),
+    End,
+}
+
+#[derive(Clone, Default)]
+struct Log(StdArc<StdMutex<Vec<Ev>>>);
+
+impl Log {
+    fn push(&self, e: Ev) {
+        let mut v = self.0.lock().unwrap_or_else(|e| e.into_inner());
+        // hard bound on harness memory, whatever the code under test does
+        if v.len() < 200_000 {
+            v.push(e);
+        }
+    }
+    fn snapshot(&self) -> Vec<Ev> {
+        self.0.lock().unwrap_or_else(|e| e.into_inner()).clone()
+    }
+}
+
+#[derive(Clone, Copy, Debug, PartialEq, Eq, Hash)]
+enum TaskKind {
+    Writer(usize),
+    Closer,
+    Reader,
+}
+
+/// One history: who writes which indices, buffer geometry, spawn order.
+#[derive(Clone, Debug, Hash)]
+struct SCase {
+    ws: usize,
+    cap_units: usize,
+    rs_units: usize,
+    /// number of messages (the closer closes at index `n`)
+    n: usize,
+    /// indices sent by each writer, in the order the writer issues them
+    writers: Vec<Vec<usize>>,
+    /// writer polls all its sends concurrently (join_all) instead of one after the other
+    joined: bool,
+    spawn_order: Vec<TaskKind>,
+}
+
+impl SCase {
+    fn cap(&self) -> usize {
+        self.cap_units * self.ws
+    }
+    fn rs(&self) -> usize {
+        self.rs_units * self.ws
+    }
+    fn expected(&self) -> Vec<u8> {
+        (0..self.n).flat_map(|i| payload(i, self.ws)).collect()
+    }
+    fn json(&self) -> Value {
+        json!({"write_size": self.ws, "capacity": self.cap(), "read_size": self.rs(), "messages": self.n,
+               "writers": self.writers, "joined": self.joined,
+               "spawn_order": self.spawn_order.iter().map(|t| format!("{t:?}")).collect::<Vec<_>>()})
+    }
+    fn shape(&self) -> String {
+        format!("w{}n{}c{}r{}s{}{}", self.writers.len(), self.n, self.cap_units, self.rs_units, self.ws,
+                if self.joined { "j" } else { "s" })
+    }
+    fn new_sender(&self) -> OrderingSender {
+        OrderingSender::new(
+            NonZeroUsize::new(self.cap()).unwrap(),
+            NonZeroUsize::new(self.ws).unwrap(),
+            NonZeroUsize::new(self.rs()).unwrap(),
+        )
+    }
+}
+
+fn gen_scase(r: &mut VRng, max_writers: usize, max_msgs: usize, max_cap_units: usize, sizes: &[usize]) -> SCase {
+    let ws = *r.choose(sizes);
+    let cap_units = r.range(1, max_cap_units as u64) as usize;
+    let rs_units = r.range(1, cap_units as u64) as usize;
+    let nw = r.range(1, max_writers as u64) as usize;
+    let n = r.range(nw as u64, max_msgs.max(nw) as u64) as usize;
+    let mut owner: Vec<usize> = (0..n).map(|_| r.below(nw as u64) as usize).collect();
+    // every writer owns at least one index
+    let mut idx: Vec<usize> = (0..n).collect();
+    r.shuffle(&mut idx);
+    for w in 0..nw {
+        owner[idx[w]] = w;
+    }
+    let joined = r.bool();
+    let mut writers: Vec<Vec<usize>> = vec![Vec::new(); nw];
+    for (i, w) in owner.iter().enumerate() {
+        writers[*w].push(i);
+    }
+    if joined {
+        for w in &mut writers {
+            r.shuffle(w);
+        }
+    }
+    let mut spawn_order: Vec<TaskKind> = (0..nw).map(TaskKind::Writer).collect();
+    spawn_order.push(TaskKind::Closer);
+    spawn_order.push(TaskKind::Reader);
+    r.shuffle(&mut spawn_order);
+    SCase { ws, cap_units, rs_units, n, writers, joined, spawn_order }
+}
+
+fn logged_send<'a, N: ArrayLength>(
+    sender: &'a OrderingSender,
+    i: usize,
+    log: &'a Log,
+) -> impl Future<Output = ()> + Send + 'a {
+    let mut fut = Box::pin(sender.send::<Msg<N>, Msg<N>>(i, mk_msg::<N>(i)));
+    poll_fn(move |cx| {
+        log.push(Ev::WPoll(i));
+        match fut.as_mut().poll(cx) {
+            Poll::Ready(()) => {
+                log.push(Ev::WDone(i));
+                Poll::Ready(())
+            }
+            Poll::Pending => {
+                log.push(Ev::WPend(i));
+                Poll::Pending
+            }
+        }
+    })
+}
+
+async fn writer_task<N: ArrayLength>(sender: CArc<OrderingSender>, idxs: Vec<usize>, joined: bool, log: Log) {
+    if joined {
+        let futs: Vec<_> = idxs.iter().map(|&i| logged_send::<N>(&sender, i, &log)).collect();
+        futures::future::join_all(futs).await;
+    } else {
+        for i in idxs {
+            logged_send::<N>(&sender, i, &log).await;
+        }
+    }
+}
+
+async fn closer_task(sender: CArc<OrderingSender>, n: usize, log: Log) {
+    let mut fut = Box::pin(sender.close(n));
+    poll_fn(|cx| {
+        log.push(Ev::CPoll);
+        match fut.as_mut().poll(cx) {
+            Poll::Ready(()) => {
+                log.push(Ev::CDone);
+                Poll::Ready(())
+            }
+            Poll::Pending => Poll::Pending,
+        }
+    })
+    .await;
+}
+
+/// The reader keeps draining until the stream ends. `take_next` is exactly what
+/// `OrderedStream::poll_next` (and the production `SendingEnd` stream) delegate to.
+async fn reader_task(sender: CArc<OrderingSender>, log: Log, max_chunks: usize) {
+    // every legitimate chunk carries at least one message, so more than `max_chunks` chunks means the buffer
+    // yields data it does not have; stop (the log already holds the evidence) instead of looping forever
+    for _ in 0..=max_chunks {
+        let r = poll_fn(|cx| {
+            log.push(Ev::RPoll);
+            let r = sender.take_next(cx);
+            match &r {
+                Poll::Ready(Some(v)) => log.push(Ev::Chunk(v.clone())),
+                Poll::Ready(None) => log.push(Ev::End),
+                Poll::Pending => log.push(Ev::RPend),
+            }
+            r
+        })
+        .await;
+        if r.is_none() {
+            break;
+        }
+    }
+}
+
+fn trace_hash(evs: &[Ev]) -> u64 {
+    let t: Vec<(u8, usize)> = evs
+        .iter()
+        .map(|e| match e {
+            Ev::WPoll(i) => (0, *i),
+            Ev::WPend(i) => (1, *i),
+            Ev::WDone(i) => (2, *i),
+            Ev::CPoll => (3, 0),
+            Ev::CDone => (4, 0),
+            Ev::RPoll => (5, 0),
+            Ev::RPend => (6, 0),
+            Ev::Chunk(v) => (7, v.len()),
+            Ev::End => (8, 0),
+        })
+        .collect();
+    fxh(&t)
+}
+
+fn trace_text(evs: &[Ev]) -> String {
+    let mut s = String::new();
+    for e in evs.iter().take(400) {
+        match e {
+            Ev::WPoll(i) => s.push_str(&format!("w{i} ")),
+            Ev::WPend(i) => s.push_str(&format!("w{i}:pend ")),
+            Ev::WDone(i) => s.push_str(&format!("w{i}:DONE ")),
+            Ev::CPoll => s.push_str("c "),
+            Ev::CDone => s.push_str("c:DONE "),
+            Ev::RPoll => s.push_str("r "),
+            Ev::RPend => s.push_str("r:pend "),
+            Ev::Chunk(v) => s.push_str(&format!("r:chunk[{}] ", v.len())),
+            Ev::End => s.push_str("r:END "),
+        }
+    }
+    s
+}
+
+#[derive(Default, Clone)]
+struct SStats {
+    blocked_polls: u64,
+    reader_pending: u64,
+    chunks: u64,
+    short_final_chunks: u64,
+    full_at_write: u64,
+    max_buffered: usize,
+}
+
+/// Judge one history from its event log. `finished` = every task ran to completion.
+/// All checks are sound for logs appended *after* the operation returned (real threads / shuttle):
+///  * prefix/equality of the yielded bytes with the concatenation by index;
+///  * chunk k has read_size bytes unless it is the final remainder, which must come after the closer started;
+///  * occupancy: when write i has returned, (i+1)*ws minus every byte that may already have been taken
+///    (chunks logged so far plus the chunk of a take in flight) never exceeds the capacity.
+fn judge(case: &SCase, evs: &[Ev], finished: bool, st: &mut SStats) -> Option<Finding> {
+    let sig = |kind: &str| json!({"component": "OrderingSender", "kind": kind});
+    let expected = case.expected();
+    let (rs, ws, cap) = (case.rs(), case.ws, case.cap());
+    let total = expected.len();
+    let full_chunks = total / rs;
+    let rem = total % rs;
+
+    let mut got: Vec<u8> = Vec::new();
+    let mut k = 0usize;
+    let mut closer_started = false;
+    let mut ended = false;
+    // resolve the outcome of every reader poll (the next reader event after an RPoll)
+    let mut inflight_len: Vec<usize> = vec![0; evs.len()];
+    {
+        let mut last_rpoll: Option<usize> = None;
+        for (p, e) in evs.iter().enumerate() {
+            match e {
+                Ev::RPoll => last_rpoll = Some(p),
+                Ev::Chunk(v) => {
+                    if let Some(q) = last_rpoll.take() {
+                        inflight_len[q] = v.len();
+                    }
+                }
+                Ev::RPend | Ev::End => {
+                    last_rpoll = None;
+                }
+                _ => {}
+            }
+        }
+    }
+    let mut logged_bytes = 0usize;
+    let mut inflight = 0usize;
+    for (p, e) in evs.iter().enumerate() {
+        match e {
+            Ev::CPoll => closer_started = true,
+            Ev::WPend(_) => st.blocked_polls += 1,
+            Ev::RPoll => inflight = inflight_len[p],
+            Ev::RPend => {
+                inflight = 0;
+                st.reader_pending += 1;
+            }
+            Ev::End => {
+                inflight = 0;
+                ended = true;
+            }
+            Ev::Chunk(v) => {
+                inflight = 0;
+                st.chunks += 1;
+                if ended {
+                    return Some(finding("a chunk was yielded after the end of the stream", sig("chunk_after_end"), json!({"chunk": k})));
+                }
+                let want_len = if k < full_chunks { rs } else if k == full_chunks { rem } else { 0 };
+                if v.len() != want_len || want_len == 0 {
+                    let kind = if v.len() < want_len || (k < full_chunks && v.len() < rs) {
+                        "short_chunk"
+                    } else {
+                        "chunk_size"
+                    };
+                    return Some(finding(
+                        "chunk size differs from read size (before close) / remainder (after close)",
+                        sig(kind),
+                        json!({"chunk": k, "len": v.len(), "want": want_len}),
+                    ));
+                }
+                if v.len() < rs {
+                    st.short_final_chunks += 1;
+                    if !closer_started {
+                        return Some(finding(
+                            "a partial chunk was yielded before close was even attempted",
+                            sig("partial_before_close"),
+                            json!({"chunk": k, "len": v.len()}),
+                        ));
+                    }
+                }
+                got.extend_from_slice(v);
+                logged_bytes += v.len();
+                if got.len() > total || got[..] != expected[..got.len()] {
+                    let at = got.iter().zip(expected.iter()).position(|(a, b)| a != b).unwrap_or(total);
+                    return Some(finding(
+                        "stream bytes differ from the concatenation of messages by index",
+                        sig("bytes"),
+                        json!({"chunk": k, "first_diff_at": at, "got": hex(&got), "want": hex(&expected)}),
+                    ));
+                }
+                k += 1;
+            }
+            Ev::WDone(i) => {
+                let written = (i + 1) * ws;
+                let maybe_taken = logged_bytes + inflight;
+                let buffered_at_least = written.saturating_sub(maybe_taken);
+                st.max_buffered = st.max_buffered.max(buffered_at_least);
+                if buffered_at_least == cap {
+                    st.full_at_write += 1;
+                }
+                if buffered_at_least > cap {
+                    return Some(finding(
+                        "a writer was admitted although the buffer was full",
+                        sig("admitted_when_full"),
+                        json!({"index": i, "written": written, "taken_at_most": maybe_taken, "capacity": cap}),
+                    ));
+                }
+            }
+            Ev::WPoll(_) | Ev::CDone => {}
+        }
+    }
+    if finished {
+        if got.len() != total {
+            return Some(finding(
+                "stream ended without all bytes",
+                sig("truncated"),
+                json!({"got": got.len(), "want": total}),
+            ));
+        }
+        if !ended {
+            return Some(finding("reader finished without seeing the end of the stream", sig("no_end"), json!({})));
+        }
+    }
+    None
+}
+
+fn stall_finding(case: &SCase, evs: &[Ev], executor: &str) -> Finding {
+    let done: Vec<usize> = evs.iter().filter_map(|e| if let Ev::WDone(i) = e { Some(*i) } else { None }).collect();
+    let closed = evs.iter().any(|e| *e == Ev::CDone);
+    let taken: usize = evs.iter().map(|e| if let Ev::Chunk(v) = e { v.len() } else { 0 }).sum();
+    let stuck = (0..case.n).find(|i| !done.contains(i));
+    let buffered = done.len() * case.ws - taken.min(done.len() * case.ws);
+    let kind = match stuck {
+        Some(_) if buffered + case.ws > case.cap() => "stall:writer_blocked_on_full_buffer",
+        Some(_) => "stall:writer_never_woken",
+        None if !closed => "stall:closer_never_woken",
+        None => "stall:reader_never_woken",
+    };
+    finding(
+        "quiescent without completion although the reader keeps draining (lost wake-up)",
+        json!({"component": "OrderingSender", "kind": kind, "executor": executor}),
+        json!({"first_incomplete_write": stuck, "writes_done": done.len(), "closed": closed, "bytes_taken": taken}),
+    )
+}
+
+fn flush_sstats(rec: &mut Recorder, st: &SStats) {
+    rec.add("sender_blocked_writer_polls", st.blocked_polls);
+    rec.add("sender_reader_pending_polls", st.reader_pending);
+    rec.add("sender_chunks", st.chunks);
+    rec.add("sender_short_final_chunks", st.short_final_chunks);
+    rec.add("sender_writes_filling_buffer", st.full_at_write);
+}
+
+// ---- executors for (B) that exist only without shuttle (crate::sync is std there) --------------
+
+#[cfg(not(feature = "shuttle"))]
+mod native {
+    use std::time::Duration;
+
+    use futures::{StreamExt, stream::FuturesUnordered};
+
+    use super::*;
+    use crate::verif::vlib::{Manual, catch_fut};
+
+    pub(super) struct ManualRun {
+        pub evs: Vec<Ev>,
+        pub finished: bool,
+        pub panics: Vec<String>,
+        pub picks: Vec<usize>,
+        pub polls: u64,
+    }
+
+    /// Run one history on the deterministic poll scheduler. `picker` chooses among woken tasks;
+    /// `spurious` (seeded) additionally re-polls tasks that were not woken (legal for any future).
+    pub(super) fn manual_world(
+        case: &SCase,
+        picker: &mut dyn FnMut(&[usize]) -> usize,
+        mut spurious: Option<&mut VRng>,
+    ) -> ManualRun {
+        with_ws!(case.ws, N => {
+            let sender = CArc::new(case.new_sender());
+            let log = Log::default();
+            let mut m: Manual<'static, Result<(), String>> = Manual::new();
+            for t in &case.spawn_order {
+                match *t {
+                    TaskKind::Writer(w) => {
+                        m.spawn(catch_fut(writer_task::<N>(CArc::clone(&sender), case.writers[w].clone(), case.joined, log.clone())));
+                    }
+                    TaskKind::Closer => {
+                        m.spawn(catch_fut(closer_task(CArc::clone(&sender), case.n, log.clone())));
+                    }
+                    TaskKind::Reader => {
+                        m.spawn(catch_fut(reader_task(CArc::clone(&sender), log.clone(), case.n + 2)));
+                    }
+                }
+            }
+            let n_tasks = case.spawn_order.len();
+            let mut picks = Vec::new();
+            let mut finished = false;
+            for _ in 0..20_000 {
+                if m.all_done() {
+                    finished = true;
+                    break;
+                }
+                if let Some(r) = spurious.as_deref_mut() {
+                    if r.below(8) == 0 {
+                        let id = r.below(n_tasks as u64) as usize;
+                        if !m.is_done(id) {
+                            picks.push(1000 + id);
+                            m.poll_task(id);
+                            continue;
+                        }
+                    }
+                }
+                let mut p = |ready: &[usize]| {
+                    let c = picker(ready).min(ready.len() - 1);
+                    picks.push(c);
+                    c
+                };
+                if !m.step(&mut p) {
+                    break;
+                }
+            }
+            let polls = m.polls;
+            let panics: Vec<String> = m
+                .take_results()
+                .into_iter()
+                .filter_map(|r| match r {
+                    Some(Err(p)) => Some(p),
+                    _ => None,
+                })
+                .collect();
+            ManualRun { evs: log.snapshot(), finished, panics, picks, polls }
+        })
+    }
+
+    /// Verdict of one Manual run: panic in the buffer code, oracle finding, or stall.
+    pub(super) fn manual_verdict(case: &SCase, run: &ManualRun, st: &mut SStats) -> Option<Finding> {
+        if let Some(p) = run.panics.first() {
+            return Some(finding(
+                "panic inside the send buffer",
+                json!({"component": "OrderingSender", "kind": "panic", "panic": panic_class(p)}),
+                json!({"panic": p}),
+            ));
+        }
+        if let Some(f) = judge(case, &run.evs, run.finished, st) {
+            return Some(f);
+        }
+        if !run.finished {
+            return Some(stall_finding(case, &run.evs, "manual"));
+        }
+        None
+    }
+
+    /// Stateless depth-first enumeration of all pick sequences. Returns (runs, exhausted).
+    pub(super) fn dfs_choices(max_runs: usize, mut run: impl FnMut(&mut dyn FnMut(&[usize]) -> usize) -> bool) -> (usize, bool) {
+        let mut path: Vec<(usize, usize)> = Vec::new();
+        let mut runs = 0;
+        loop {
+            let mut step = 0usize;
+            let mut cur = std::mem::take(&mut path);
+            let keep_going = {
+                let mut picker = |ready: &[usize]| {
+                    if step >= cur.len() {
+                        cur.push((0, ready.len()));
+                    }
+                    cur[step].1 = ready.len();
+                    let c = cur[step].0.min(ready.len() - 1);
+                    step += 1;
+                    c
+                };
+                run(&mut picker)
+            };
+            runs += 1;
+            cur.truncate(step);
+            while let Some(&(c, w)) = cur.last() {
+                if c + 1 < w {
+                    break;
+                }
+                cur.pop();
+            }
+            if cur.is_empty() {
+                return (runs, true);
+            }
+            cur.last_mut().unwrap().0 += 1;
+            path = cur;
+            if runs >= max_runs || !keep_going {
+                return (runs, false);
+            }
+        }
+    }
+
+    fn small_cases(thorough: bool) -> Vec<SCase> {
+        // 2-3 writers, capacities of 1-2 messages: "full" and "wrong turn" are hit constantly
+        let mut v = Vec::new();
+        let mut shapes = vec![(2usize, 2usize), (2, 3), (3, 3), (2, 4), (3, 4)];
+        if thorough {
+            shapes.extend([(3, 5), (4, 4), (4, 5), (2, 6)]);
+        }
+        for (nw, n) in shapes {
+            for cap_units in 1..=2usize {
+                for rs_units in 1..=cap_units {
+                    for ws in [1usize, 2] {
+                        for variant in 0..3usize {
+                            let mut writers: Vec<Vec<usize>> = vec![Vec::new(); nw];
+                            for i in 0..n {
+                                // variant 0: round robin; 1: reversed round robin; 2: blocks
+                                let w = match variant {
+                                    0 => i % nw,
+                                    1 => (n - 1 - i) % nw,
+                                    _ => (i * nw) / n,
+                                };
+                                writers[w].push(i);
+                            }
+                            if writers.iter().any(Vec::is_empty) {
+                                continue;
+                            }
+                            let joined = variant == 1;
+                            if joined {
+                                for w in &mut writers {
+                                    w.reverse();
+                                }
+                            }
+                            let mut spawn_order: Vec<TaskKind> = (0..nw).rev().map(TaskKind::Writer).collect();
+                            match variant {
+                                0 => {
+                                    spawn_order.push(TaskKind::Closer);
+                                    spawn_order.push(TaskKind::Reader);
+                                }
+                                1 => {
+                                    spawn_order.insert(0, TaskKind::Reader);
+                                    spawn_order.insert(0, TaskKind::Closer);
+                                }
+                                _ => {
+                                    spawn_order.insert(1, TaskKind::Reader);
+                                    spawn_order.push(TaskKind::Closer);
+                                }
+                            }
+                            v.push(SCase { ws, cap_units, rs_units, n, writers, joined, spawn_order });
+                        }
+                    }
+                }
+            }
+        }
+        v
+    }
+
+    #[test]
+    fn verif_c14_sender_manual_dfs() {
+        let env = vlib::env();
+        let mut rec = Recorder::new("C14", "verif_c14_sender_manual_dfs");
+        let only = replay_case();
+        let max_runs: usize = env.pick(4000, 60000);
+        let mut st = SStats::default();
+        for (idx, case) in small_cases(env.thorough).into_iter().enumerate() {
+            if !env.mine(idx) || only.is_some_and(|c| c != idx) {
+                continue;
+            }
+            rec.seen("sender_shapes", case.shape());
+            let mut found: Option<(Finding, ManualRun)> = None;
+            let mut traces: Vec<u64> = Vec::new();
+            let (runs, exhausted) = dfs_choices(max_runs, |picker| {
+                let run = manual_world(&case, picker, None);
+                let mut s = SStats::default();
+                let v = manual_verdict(&case, &run, &mut s);
+                st.blocked_polls += s.blocked_polls;
+                st.reader_pending += s.reader_pending;
+                st.chunks += s.chunks;
+                st.short_final_chunks += s.short_final_chunks;
+                st.full_at_write += s.full_at_write;
+                if s.blocked_polls > 0 {
+                    traces.push(trace_hash(&run.evs));
+                }
+                match v {
+                    Some(f) => {
+                        found = Some((f, run));
+                        false
+                    }
+                    None => true,
+                }
+            });
+            rec.evals(runs as u64);
+            rec.add("sender_manual_dfs_runs", runs as u64);
+            if exhausted {
+                rec.count("sender_manual_dfs_exhausted_cases");
+            }
+            for t in &traces {
+                rec.distinct(&(idx, *t));
+                if rec.want_sample() {
+                    rec.sample(serde_json::json!({"sender_manual_case_index": idx}));
+                }
+            }
+            if let Some((f, run)) = found {
+                report(&mut rec, f, idx, json!({"history": case.json(), "executor": "manual-dfs", "picks": run.picks, "trace": trace_text(&run.evs)}));
+            } else if rec.want_sample() {
+                rec.sample(json!({"history": case.json(), "dfs_runs": runs, "exhausted": exhausted, "distinct_traces": traces.iter().collect::<HashSet<_>>().len()}));
+            }
+        }
+        flush_sstats(&mut rec, &st);
+        rec.finish();
+    }
+
+    #[test]
+    fn verif_c14_sender_manual_seeded() {
+        let env = vlib::env();
+        let mut rec = Recorder::new("C14", "verif_c14_sender_manual_seeded");
+        let only = replay_case();
+        let cases: usize = env.pick(40000, 600000);
+        let mut st = SStats::default();
+        for idx in 0..cases {
+            if !env.mine(idx) || only.is_some_and(|c| c != idx) {
+                continue;
+            }
+            let mut r = VRng::new(env.seed ^ 0xC14B, idx as u64);
+            let case = gen_scase(&mut r, 6, 14, 4, SIZES);
+            let policy = r.below(4);
+            let mut pr = VRng::new(env.seed ^ 0xC14C, idx as u64);
+            let mut picker = |ready: &[usize]| match policy {
+                0 => 0,
+                1 => ready.len() - 1,
+                _ => pr.below(ready.len() as u64) as usize,
+            };
+            let mut sp = VRng::new(env.seed ^ 0xC14D, idx as u64);
+            let run = manual_world(&case, &mut picker, if policy == 3 { Some(&mut sp) } else { None });
+            rec.eval();
+            rec.add("sender_manual_polls", run.polls);
+            rec.seen("sender_shapes", case.shape());
+            let before = st.blocked_polls;
+            match manual_verdict(&case, &run, &mut st) {
+                Some(f) => report(&mut rec, f, idx, json!({"history": case.json(), "executor": "manual", "policy": policy, "picks": run.picks, "trace": trace_text(&run.evs)})),
+                None => {
+                    if st.blocked_polls > before {
+                        rec.distinct(&(fxh(&case), trace_hash(&run.evs)));
+                    }
+                    if rec.want_sample() {
+                        rec.sample(json!({"history": case.json(), "policy": policy, "trace": trace_text(&run.evs)}));
+                    }
+                }
+            }
+        }
+        flush_sstats(&mut rec, &st);
+        rec.finish();
+    }
+
+    // ---- real threads -----------------------------------------------------------------------------
+
+    pub(super) enum MtOutcome {
+        Done(Vec<Ev>, Vec<String>),
+        TimedOut(Vec<Ev>),
+    }
+
+    async fn mt_world<N: ArrayLength>(case: SCase, per_history: Duration) -> MtOutcome {
+        let sender = CArc::new(case.new_sender());
+        let log = Log::default();
+        let mut hs = FuturesUnordered::new();
+        for t in &case.spawn_order {
+            let h = match *t {
+                TaskKind::Writer(w) => tokio::spawn(catch_fut(writer_task::<N>(CArc::clone(&sender), case.writers[w].clone(), case.joined, log.clone()))),
+                TaskKind::Closer => tokio::spawn(catch_fut(closer_task(CArc::clone(&sender), case.n, log.clone()))),
+                TaskKind::Reader => tokio::spawn(catch_fut(reader_task(CArc::clone(&sender), log.clone(), case.n + 2))),
+            };
+            hs.push(h);
+        }
+        let mut panics = Vec::new();
+        let all = async {
+            while let Some(r) = hs.next().await {
+                match r {
+                    Ok(Ok(())) => {}
+                    Ok(Err(p)) => {
+                        panics.push(p);
+                        break;
+                    }
+                    Err(e) => {
+                        panics.push(format!("join error: {e}"));
+                        break;
+                    }
+                }
+            }
+        };
+        let timed_out = tokio::time::timeout(per_history, all).await.is_err();
+        for h in hs.iter() {
+            h.abort();
+        }
+        if timed_out {
+            MtOutcome::TimedOut(log.snapshot())
+        } else {
+            MtOutcome::Done(log.snapshot(), panics)
+        }
+    }
+
+    /// A history that did not finish on real threads is inconclusive by itself (wall time); try to
+    /// reproduce a stall deterministically on the poll scheduler.
+    pub(super) fn reclassify(case: &SCase, seed: u64) -> Option<(Finding, ManualRun)> {
+        for k in 0..400u64 {
+            let mut pr = VRng::new(seed ^ 0xC14E, k);
+            let mut picker = |ready: &[usize]| match k {
+                0 => 0,
+                1 => ready.len() - 1,
+                _ => pr.below(ready.len() as u64) as usize,
+            };
+            let run = manual_world(case, &mut picker, None);
+            let mut s = SStats::default();
+            if let Some(f) = manual_verdict(case, &run, &mut s) {
+                return Some((f, run));
+            }
+        }
+        None
+    }
+
+    #[test]
+    fn verif_c14_sender_threads() {
+        let env = vlib::env();
+        let mut rec = Recorder::new("C14", "verif_c14_sender_threads");
+        let only = replay_case();
+        let batches: usize = env.pick(480, 6400);
+        let per_batch: usize = 40;
+        let mut st = SStats::default();
+        let mut timeouts = 0usize;
+        for b in 0..batches {
+            if !env.mine(b) || only.is_some_and(|c| c / per_batch != b) {
+                continue;
+            }
+            let cases: Vec<(usize, SCase)> = (0..per_batch)
+                .map(|j| {
+                    let idx = b * per_batch + j;
+                    let mut r = VRng::new(env.seed ^ 0xC14F, idx as u64);
+                    (idx, gen_scase(&mut r, 6, if idx % 4 == 3 { 90 } else { 24 }, 4, SIZES))
+                })
+                .filter(|(idx, _)| only.is_none_or(|c| c == *idx))
+                .collect();
+            if timeouts >= 2 {
+                // wall time is not a verdict; two histories were already handed to the poll scheduler
+                rec.count("sender_thread_batches_skipped_after_timeouts");
+                continue;
+            }
+            let workers = 2 + (b % 5);
+            let cs = cases.clone();
+            let out = vlib::run_mt(workers, Duration::from_secs(600), async move {
+                let mut v = Vec::new();
+                let mut t = 0;
+                for (idx, case) in cs {
+                    if t >= 2 {
+                        break;
+                    }
+                    let o = with_ws!(case.ws, N => mt_world::<N>(case.clone(), Duration::from_secs(5)).await);
+                    if matches!(o, MtOutcome::TimedOut(_)) {
+                        t += 1;
+                    }
+                    v.push((idx, o));
+                }
+                v
+            });
+            let Some(out) = out else {
+                rec.inconclusive(format!("thread batch {b} exceeded its wall deadline"));
+                continue;
+            };
+            for ((idx, case), (_, o)) in cases.iter().zip(out.into_iter()) {
+                rec.eval();
+                rec.seen("sender_shapes", case.shape());
+                match o {
+                    MtOutcome::Done(evs, panics) => {
+                        if let Some(p) = panics.first() {
+                            rec.violation(
+                                "panic inside the send buffer",
+                                json!({"component": "OrderingSender", "kind": "panic", "panic": panic_class(p)}),
+                                json!({"case": idx, "history": case.json(), "executor": "threads", "panic": p, "trace": trace_text(&evs)}),
+                            );
+                            continue;
+                        }
+                        let before = st.blocked_polls;
+                        match judge(case, &evs, true, &mut st) {
+                            Some(f) => report(&mut rec, f, *idx, json!({"history": case.json(), "executor": "threads", "workers": workers, "trace": trace_text(&evs)})),
+                            None => {
+                                rec.count("sender_thread_histories_completed");
+                                if st.blocked_polls > before {
+                                    rec.distinct(&(fxh(case), trace_hash(&evs)));
+                                }
+                                if rec.want_sample() {
+                                    rec.sample(json!({"history": case.json(), "workers": workers, "trace": trace_text(&evs)}));
+                                }
+                            }
+                        }
+                    }
+                    MtOutcome::TimedOut(evs) => {
+                        timeouts += 1;
+                        rec.count("sender_thread_histories_timed_out");
+                        // the partial log is still judged (prefix checks are sound)
+                        let mut s = SStats::default();
+                        if let Some(f) = judge(case, &evs, false, &mut s) {
+                            report(&mut rec, f, *idx, json!({"history": case.json(), "executor": "threads", "trace": trace_text(&evs)}));
+                        } else if let Some((f, run)) = reclassify(case, env.seed) {
+                            report(&mut rec, f, *idx, json!({"history": case.json(), "executor": "manual (re-run of a history that timed out on threads)",
+                                   "picks": run.picks, "trace": trace_text(&run.evs), "thread_trace": trace_text(&evs)}));
+                        } else {
+                            rec.inconclusive(format!(
+                                "history {idx} did not finish within 5 s on {workers} threads and no stall was reproducible on the poll scheduler; partial trace: {}",
+                                trace_text(&evs)
+                            ));
+                        }
+                    }
+                }
+            }
+        }
+        flush_sstats(&mut rec, &st);
+        rec.finish();
+    }
+}
+
+// ---------------------------------------------------------------------------------------------
+// (C) UnorderedReceiver
+// ---------------------------------------------------------------------------------------------
+
+#[derive(Default)]
+struct Feed {
+    q: VecDeque<Vec<u8>>,
+    closed: bool,
+    waker: Option<Waker>,
+}
+
+/// A byte stream whose chunks are handed over by the harness.
+#[derive(Clone, Default)]
+struct FeedHandle(StdArc<StdMutex<Feed>>);
+
+impl FeedHandle {
+    fn push(&self, chunk: Vec<u8>) {
+        let w = {
+            let mut f = self.0.lock().unwrap();
+            f.q.push_back(chunk);
+            f.waker.take()
+        };
+        if let Some(w) = w {
+            w.wake();
+        }
+    }
+    fn close(&self) {
+        let w = {
+            let mut f = self.0.lock().unwrap();
+            f.closed = true;
+            f.waker.take()
+        };
+        if let Some(w) = w {
+            w.wake();
+        }
+    }
+}
+
+struct FeedStream(FeedHandle);
+
+impl Stream for FeedStream {
+    type Item = Vec<u8>;
+    fn poll_next(self: Pin<&mut Self>, cx: &mut Context<'_>) -> Poll<Option<Vec<u8>>> {
+        let mut f = self.0.0.lock().unwrap();
+        if let Some(c) = f.q.pop_front() {
+            Poll::Ready(Some(c))
+        } else if f.closed {
+            Poll::Ready(None)
+        } else {
+            f.waker = Some(cx.waker().clone());
+            Poll::Pending
+        }
+    }
+}
+
+/// Outcome of one request as seen by the harness.
+#[derive(Clone, Debug, PartialEq, Eq)]
+enum RecvOut {
+    Msg(Vec<u8>),
+    EndOfStream,
+    Deserialize,
+}
+
+async fn recv_task<N: ArrayLength>(r: UnorderedReceiver<FeedStream, Vec<u8>>, i: usize) -> RecvOut {
+    match r.recv::<Msg<N>, usize>(i).await {
+        Ok(m) => RecvOut::Msg(m.0.to_vec()),
+        Err(RecvError::EndOfStream(_)) => RecvOut::EndOfStream,
+        Err(RecvError::DeserializeFailed(_)) => RecvOut::Deserialize,
+    }
+}
+
+fn new_receiver(cap: usize) -> (UnorderedReceiver<FeedStream, Vec<u8>>, FeedHandle) {
+    let h = FeedHandle::default();
+    let r = UnorderedReceiver::new(Box::pin(FeedStream(h.clone())), NonZeroUsize::new(cap).unwrap());
+    (r, h)
+}
+
+#[derive(Clone, Debug)]
+enum Act {
+    /// first poll of request number `k` of `reqs`
+    Issue(usize),
+    /// hand the next chunk to the stream
+    Feed,
+    Close,
+    /// run woken tasks until nothing is ready
+    Settle,
+    /// poll request `k` although nobody woke it
+    Spurious(usize),
+}
+
+#[derive(Clone, Debug)]
+struct RCase {
+    sz: usize,
+    data: Vec<u8>,
+    /// chunk lengths (sum = data.len()); zero-length chunks allowed
+    chunks: Vec<usize>,
+    cap: usize,
+    /// record index asked for by request k
+    reqs: Vec<usize>,
+    lifo: bool,
+    script: Vec<Act>,
+}
+
+impl RCase {
+    fn json(&self) -> Value {
+        let script: String = self
+            .script
+            .iter()
+            .map(|a| match a {
+                Act::Issue(k) => format!("I{} ", self.reqs[*k]),
+                Act::Feed => "F ".to_string(),
+                Act::Close => "X ".to_string(),
+                Act::Settle => "~ ".to_string(),
+                Act::Spurious(k) => format!("S{} ", self.reqs[*k]),
+            })
+            .collect();
+        json!({"message_size": self.sz, "stream": hex(&self.data), "chunks": self.chunks, "capacity": self.cap,
+               "requests": self.reqs, "lifo": self.lifo, "script(I=issue,F=feed,X=close,~=settle,S=spurious poll)": script})
+    }
+}
+
+/// timing 0: all requests first, then data chunk by chunk; 1: all data (and end) first, then requests;
+/// 2: alternate one request / one chunk.
+fn recv_script(n_reqs: usize, n_chunks: usize, timing: usize) -> Vec<Act> {
+    let mut s = Vec::new();
+    match timing {
+        0 => {
+            s.extend((0..n_reqs).map(Act::Issue));
+            s.push(Act::Settle);
+            for _ in 0..n_chunks {
+                s.push(Act::Feed);
+                s.push(Act::Settle);
+            }
+            s.push(Act::Close);
+            s.push(Act::Settle);
+        }
+        1 => {
+            s.extend((0..n_chunks).map(|_| Act::Feed));
+            s.push(Act::Close);
+            s.extend((0..n_reqs).map(Act::Issue));
+            s.push(Act::Settle);
+        }
+        _ => {
+            for k in 0..n_reqs.max(n_chunks) {
+                if k < n_reqs {
+                    s.push(Act::Issue(k));
+                }
+                if k < n_chunks {
+                    s.push(Act::Feed);
+                }
+                s.push(Act::Settle);
+            }
+            s.push(Act::Close);
+            s.push(Act::Settle);
+        }
+    }
+    s
+}
+
+#[derive(Default)]
+struct RStats {
+    resolved_ok: u64,
+    resolved_eos: u64,
+    parked_beyond_end: u64,
+    overflow_registrations: u64,
+    ring_registrations: u64,
+    quiescence_checks: u64,
+    polls: u64,
+    straddling_messages: u64,
+}
+
+fn flush_rstats(rec: &mut Recorder, s: &RStats) {
+    rec.add("recv_resolved_ok", s.resolved_ok);
+    rec.add("recv_resolved_end_of_stream", s.resolved_eos);
+    rec.add("recv_parked_beyond_end", s.parked_beyond_end);
+    rec.add("recv_overflow_registrations", s.overflow_registrations);
+    rec.add("recv_ring_registrations", s.ring_registrations);
+    rec.add("recv_quiescence_checks", s.quiescence_checks);
+    rec.add("recv_polls", s.polls);
+    rec.add("recv_messages_straddling_chunks", s.straddling_messages);
+}
+
+#[cfg(not(feature = "shuttle"))]
+mod native_recv {
+    use super::*;
+    use crate::verif::vlib::{Manual, catch_fut};
+
+    /// Execute the script on the poll scheduler, checking the oracle at every quiescent point.
+    pub(super) fn recv_run(case: &RCase, st: &mut RStats) -> Option<Finding> {
+        with_ws!(case.sz, N => recv_run_n::<N>(case, st))
+    }
+
+    fn recv_run_n<N: ArrayLength>(case: &RCase, st: &mut RStats) -> Option<Finding> {
+        let sig = |kind: &str| json!({"component": "UnorderedReceiver", "kind": kind});
+        let sz = case.sz;
+        let n_complete = case.data.len() / sz;
+        let (recv, feed) = new_receiver(case.cap);
+        let mut m: Manual<'static, Result<RecvOut, String>> = Manual::new();
+        // task id of request k (spawned when issued)
+        let mut tid: Vec<Option<usize>> = vec![None; case.reqs.len()];
+        let mut fed_bytes = 0usize;
+        let mut next_chunk = 0usize;
+        let mut offset = 0usize;
+        let mut closed = false;
+        let lifo = case.lifo;
+
+        // messages that straddle a chunk boundary (exercise the spare-bytes carry-over)
+        {
+            let mut o = 0;
+            let mut cuts = HashSet::new();
+            for c in &case.chunks {
+                o += c;
+                cuts.insert(o);
+            }
+            for i in 0..n_complete {
+                if ((i * sz + 1)..((i + 1) * sz)).any(|b| cuts.contains(&b)) {
+                    st.straddling_messages += 1;
+                }
+            }
+        }
+
+        let check = |m: &Manual<'static, Result<RecvOut, String>>, tid: &[Option<usize>], fed: usize, closed: bool, fin: bool, st: &mut RStats| -> Option<Finding> {
+            st.quiescence_checks += 1;
+            let issued: HashSet<usize> = tid.iter().enumerate().filter(|(_, t)| t.is_some()).map(|(k, _)| case.reqs[k]).collect();
+            let first_gap = (0..).find(|i| !issued.contains(i)).unwrap();
+            let avail = fed / sz;
+            for (k, t) in tid.iter().enumerate() {
+                let Some(t) = t else { continue };
+                let i = case.reqs[k];
+                match m.result(*t) {
+                    Some(Err(p)) => {
+                        return Some(finding("panic inside the receive buffer", json!({"component": "UnorderedReceiver", "kind": "panic", "panic": panic_class(p)}), json!({"request": i, "panic": p})));
+                    }
+                    Some(Ok(out)) => {
+                        if i >= first_gap {
+                            return Some(finding("a request resolved although an earlier record was never requested", sig("resolved_out_of_order"), json!({"request": i, "outcome": format!("{out:?}")})));
+                        }
+                        if i < n_complete {
+                            let want = &case.data[i * sz..(i + 1) * sz];
+                            if *out != RecvOut::Msg(want.to_vec()) {
+                                let kind = if matches!(out, RecvOut::Msg(_)) { "wrong_message" } else { "error_instead_of_message" };
+                                return Some(finding("recv(i) did not return the i-th message of the stream", sig(kind), json!({"request": i, "got": format!("{out:?}"), "want": hex(want)})));
+                            }
+                            if (i + 1) * sz > fed {
+                                return Some(finding("recv(i) resolved before its bytes arrived", sig("resolved_early"), json!({"request": i, "fed_bytes": fed})));
+                            }
+                        } else if *out != RecvOut::EndOfStream || !closed {
+                            return Some(finding("a request beyond the end of the stream did not fail with EndOfStream", sig("beyond_end"), json!({"request": i, "got": format!("{out:?}"), "closed": closed})));
+                        }
+                    }
+                    None => {
+                        // progress: data is there, every earlier record was requested => must be done
+                        if i < first_gap && i < avail {
+                            return Some(finding(
+                                "quiescent although the data for a pending request has arrived (lost wake-up)",
+                                sig("stall"),
+                                json!({"request": i, "fed_bytes": fed, "messages_available": avail, "requests_issued": issued.iter().collect::<Vec<_>>()}),
+                            ));
+                        }
+                        if closed && i == n_complete && i < first_gap && fed == case.data.len() {
+                            return Some(finding(
+                                "quiescent although the stream ended: the first missing record never got EndOfStream",
+                                sig("stall_at_end"),
+                                json!({"request": i}),
+                            ));
+                        }
+                        if fin && i > n_complete {
+                            st.parked_beyond_end += 1;
+                        }
+                    }
+                }
+            }
+            None
+        };
+
+        for act in &case.script {
+            match act {
+                Act::Issue(k) | Act::Spurious(k) => {
+                    let i = case.reqs[*k];
+                    let id = match tid[*k] {
+                        Some(id) => id,
+                        None => {
+                            let id = m.spawn(catch_fut(recv_task::<N>(recv.clone(), i)));
+                            tid[*k] = Some(id);
+                            id
+                        }
+                    };
+                    if !m.is_done(id) {
+                        // model of the read cursor = number of requests that resolved with a message
+                        let next = tid.iter().flatten().filter(|t| matches!(m.result(**t), Some(Ok(RecvOut::Msg(_))))).count();
+                        if i > next + case.cap {
+                            st.overflow_registrations += 1;
+                        } else if i > next {
+                            st.ring_registrations += 1;
+                        }
+                        m.poll_task(id);
+                    }
+                }
+                Act::Feed => {
+                    if next_chunk < case.chunks.len() {
+                        let len = case.chunks[next_chunk];
+                        feed.push(case.data[offset..offset + len].to_vec());
+                        offset += len;
+                        fed_bytes += len;
+                        next_chunk += 1;
+                    }
+                }
+                Act::Close => {
+                    // the end of the stream only after all data
+                    while next_chunk < case.chunks.len() {
+                        let len = case.chunks[next_chunk];
+                        feed.push(case.data[offset..offset + len].to_vec());
+                        offset += len;
+                        fed_bytes += len;
+                        next_chunk += 1;
+                    }
+                    feed.close();
+                    closed = true;
+                }
+                Act::Settle => {
+                    let mut pick = |ready: &[usize]| if lifo { ready.len() - 1 } else { 0 };
+                    let mut guard = 0;
+                    while m.step(&mut pick) {
+                        guard += 1;
+                        if guard > 100_000 {
+                            return Some(finding("receiver tasks keep waking each other without progress", sig("livelock"), json!({})));
+                        }
+                    }
+                    if let Some(f) = check(&m, &tid, fed_bytes, closed, false, st) {
+                        return Some(f);
+                    }
+                }
+            }
+        }
+        // final: drain whatever is still ready, then judge
+        let mut pick = |ready: &[usize]| if lifo { ready.len() - 1 } else { 0 };
+        let mut guard = 0;
+        while m.step(&mut pick) && guard < 100_000 {
+            guard += 1;
+        }
+        st.polls += m.polls;
+        let r = check(&m, &tid, fed_bytes, closed, true, st);
+        if r.is_none() {
+            for t in tid.iter().flatten() {
+                match m.result(*t) {
+                    Some(Ok(RecvOut::Msg(_))) => st.resolved_ok += 1,
+                    Some(Ok(RecvOut::EndOfStream)) => st.resolved_eos += 1,
+                    _ => {}
+                }
+            }
+        }
+        r
+    }
+
+    fn permutations(n: usize) -> Vec<Vec<usize>> {
+        fn rec(cur: &mut Vec<usize>, used: &mut Vec<bool>, n: usize, out: &mut Vec<Vec<usize>>) {
+            if cur.len() == n {
+                out.push(cur.clone());
+                return;
+            }
+            for i in 0..n {
+                if !used[i] {
+                    used[i] = true;
+                    cur.push(i);
+                    rec(cur, used, n, out);
+                    cur.pop();
+                    used[i] = false;
+                }
+            }
+        }
+        let mut out = Vec::new();
+        rec(&mut Vec::new(), &mut vec![false; n], n, &mut out);
+        out
+    }
+
+    #[test]
+    fn verif_c14_recv_exhaustive() {
+        let env = vlib::env();
+        let mut rec = Recorder::new("C14", "verif_c14_recv_exhaustive");
+        let only = replay_case();
+        let max_len: usize = env.pick(10, 12);
+        let mut st = RStats::default();
+        let mut case_no = 0usize;
+        let perms: Vec<Vec<Vec<usize>>> = (0..=5).map(permutations).collect();
+        'outer: for sz in [1usize, 2, 3, 4] {
+            for len in sz..=max_len {
+                let n_complete = len / sz;
+                if n_complete > 5 {
+                    continue;
+                }
+                let data: Vec<u8> = (0..len).map(|k| (k * 17 + 3) as u8).collect();
+                for mask in 0..(1usize << (len - 1)) {
+                    // bit b set = cut after byte b
+                    let idx = case_no;
+                    case_no += 1;
+                    if !env.mine(idx) || only.is_some_and(|c| c != idx) {
+                        continue;
+                    }
+                    let mut chunks = Vec::new();
+                    let mut run = 1;
+                    for b in 0..(len - 1) {
+                        if mask >> b & 1 == 1 {
+                            chunks.push(run);
+                            run = 1;
+                        } else {
+                            run += 1;
+                        }
+                    }
+                    chunks.push(run);
+                    // request sets: exactly the complete records; and additionally the first missing one
+                    for n_reqs in [n_complete, n_complete + 1] {
+                        if n_reqs > 5 || n_reqs == 0 {
+                            continue;
+                        }
+                        for perm in &perms[n_reqs] {
+                            for cap in [2usize, 3] {
+                                for timing in 0..3usize {
+                                    let lifo = (timing + cap + mask) % 2 == 1;
+                                    let case = RCase {
+                                        sz,
+                                        data: data.clone(),
+                                        chunks: chunks.clone(),
+                                        cap,
+                                        reqs: perm.clone(),
+                                        lifo,
+                                        script: recv_script(n_reqs, chunks.len(), timing),
+                                    };
+                                    rec.eval();
+                                    match recv_run(&case, &mut st) {
+                                        Some(f) => {
+                                            report(&mut rec, f, idx, json!({"receiver_case": case.json()}));
+                                            if rec.n_violations() >= 20 {
+                                                break 'outer;
+                                            }
+                                        }
+                                        None => {
+                                            rec.distinct(&(sz, len, mask, n_reqs, fxh(perm), cap, timing));
+                                            if rec.want_sample() {
+                                                rec.sample(serde_json::json!({"receiver_case": {"message_size": sz, "stream_len": len, "chunking_mask": mask, "requests": n_reqs, "capacity": cap}}));
+                                            }
+                                            if rec.want_sample() && mask % 97 == 5 && timing == 0 {
+                                                rec.sample(case.json());
+                                            }
+                                        }
+                                    }
+                                }
+                            }
+                        }
+                    }
+                }
+                rec.seen("recv_stream_shapes", format!("len{len}/msg{sz}"));
+            }
+        }
+        flush_rstats(&mut rec, &st);
+        rec.finish();
+    }
+
+    #[test]
+    fn verif_c14_recv_seeded() {
+        let env = vlib::env();
+        let mut rec = Recorder::new("C14", "verif_c14_recv_seeded");
+        let only = replay_case();
+        let cases: usize = env.pick(6000, 80000);
+        let mut st = RStats::default();
+        for idx in 0..cases {
+            if !env.mine(idx) || only.is_some_and(|c| c != idx) {
+                continue;
+            }
+            let mut r = VRng::new(env.seed ^ 0xC14E_0001, idx as u64);
+            let sz = *r.choose(SIZES);
+            let n_complete = r.range(1, 48) as usize;
+            let tail = if r.below(3) == 0 { r.below(sz as u64) as usize } else { 0 };
+            let data = r.bytes(n_complete * sz + tail);
+            // chunking: random cut points, occasionally empty chunks
+            let mut chunks = Vec::new();
+            let mut left = data.len();
+            let big = r.bool();
+            while left > 0 {
+                let c = if r.below(12) == 0 {
+                    0
+                } else {
+                    (r.range(1, if big { 4 * sz as u64 + 3 } else { sz as u64 + 1 }) as usize).min(left)
+                };
+                chunks.push(c);
+                left -= c;
+            }
+            let cap = r.range(2, 9) as usize;
+            // requests: all complete records, sometimes the first missing one and one far beyond
+            let mut reqs: Vec<usize> = (0..n_complete).collect();
+            if r.bool() {
+                reqs.push(n_complete);
+            }
+            if r.below(4) == 0 {
+                reqs.push(n_complete + 1 + r.below(2 * cap as u64) as usize);
+            }
+            match r.below(4) {
+                0 => reqs.reverse(),
+                1 => r.shuffle(&mut reqs),
+                2 => {
+                    // windows of `2*cap` shuffled: far-ahead requests, but bounded
+                    for w in reqs.chunks_mut(2 * cap) {
+                        r.shuffle(w);
+                    }
+                }
+                _ => {}
+            }
+            // script: random interleaving of issues, feeds, settles and spurious polls
+            let mut script = Vec::new();
+            let (mut ni, mut nf) = (0usize, 0usize);
+            while ni < reqs.len() || nf < chunks.len() {
+                match r.below(10) {
+                    0..=3 if ni < reqs.len() => {
+                        script.push(Act::Issue(ni));
+                        ni += 1;
+                    }
+                    4..=6 if nf < chunks.len() => {
+                        script.push(Act::Feed);
+                        nf += 1;
+                    }
+                    7 if ni > 0 => script.push(Act::Spurious(r.below(ni as u64) as usize)),
+                    8 => script.push(Act::Settle),
+                    _ => {}
+                }
+            }
+            script.push(Act::Settle);
+            script.push(Act::Close);
+            script.push(Act::Settle);
+            let case = RCase { sz, data, chunks, cap, reqs, lifo: r.bool(), script };
+            rec.eval();
+            let before = st.overflow_registrations;
+            match recv_run(&case, &mut st) {
+                Some(f) => report(&mut rec, f, idx, json!({"receiver_case": case.json()})),
+                None => {
+                    rec.distinct(&idx);
+                    if st.overflow_registrations > before {
+                        rec.count("recv_cases_with_overflow_wakers");
+                    }
+                    if rec.want_sample() && idx % 50 == 0 {
+                        rec.sample(case.json());
+                    }
+                }
+            }
+        }
+        flush_rstats(&mut rec, &st);
+        rec.finish();
+    }
+}
+
+// ---------------------------------------------------------------------------------------------
+// (B1) shuttle: every lock / atomic access of the buffers is a scheduling point (build b2)
+// ---------------------------------------------------------------------------------------------
+
+#[cfg(feature = "shuttle")]
+mod sh {
+    use shuttle::scheduler::{DfsScheduler, PctScheduler, RandomScheduler, ReplayScheduler, Scheduler};
+
+    use super::*;
+
+    #[derive(Clone, Copy, Debug)]
+    pub(super) enum Sched {
+        Random,
+        Pct(usize),
+        Dfs,
+    }
+
+    #[derive(Default)]
+    struct Coll {
+        executions: u64,
+        traces: HashSet<u64>,
+        stats: SStats,
+        /// log of the execution in flight (for the witness of a deadlock)
+        current: Option<Log>,
+        last_trace: Option<String>,
+    }
+
+    pub(super) struct ShResult {
+        pub executions: u64,
+        pub traces: HashSet<u64>,
+        pub stats: SStats,
+        /// (class, message, schedule, partial trace)
+        pub failure: Option<(String, String, Option<String>, String)>,
+        pub last_trace: Option<String>,
+    }
+
+    /// writers as shuttle threads (blocking on their futures) instead of async tasks
+    fn sh_world(case: &SCase, threads: bool, log: &Log) {
+        with_ws!(case.ws, N => {
+            let sender = CArc::new(case.new_sender());
+            if threads {
+                let mut hs = Vec::new();
+                for t in &case.spawn_order {
+                    let (s, l) = (CArc::clone(&sender), log.clone());
+                    let h = match *t {
+                        TaskKind::Writer(w) => {
+                            let (idxs, joined) = (case.writers[w].clone(), case.joined);
+                            shuttle::thread::spawn(move || shuttle::future::block_on(writer_task::<N>(s, idxs, joined, l)))
+                        }
+                        TaskKind::Closer => {
+                            let n = case.n;
+                            shuttle::thread::spawn(move || shuttle::future::block_on(closer_task(s, n, l)))
+                        }
+                        TaskKind::Reader => {
+                            let max_chunks = case.n + 2;
+                            shuttle::thread::spawn(move || shuttle::future::block_on(reader_task(s, l, max_chunks)))
+                        }
+                    };
+                    hs.push(h);
+                }
+                for h in hs {
+                    h.join().unwrap();
+                }
+            } else {
+                let case = case.clone();
+                let log = log.clone();
+                shuttle::future::block_on(async move {
+                    let mut hs = Vec::new();
+                    for t in &case.spawn_order {
+                        let (s, l) = (CArc::clone(&sender), log.clone());
+                        let h = match *t {
+                            TaskKind::Writer(w) => shuttle::future::spawn(writer_task::<N>(s, case.writers[w].clone(), case.joined, l)),
+                            TaskKind::Closer => shuttle::future::spawn(closer_task(s, case.n, l)),
+                            TaskKind::Reader => shuttle::future::spawn(reader_task(s, l, case.n + 2)),
+                        };
+                        hs.push(h);
+                    }
+                    for h in hs {
+                        h.await.unwrap();
+                    }
+                });
+            }
+        })
+    }
+
+    fn extract_schedule(msg: &str) -> Option<String> {
+        let a = msg.find("failing schedule:\n\"\n")? + "failing schedule:\n\"\n".len();
+        let b = msg[a..].find("\n\"")? + a;
+        Some(msg[a..b].to_string())
+    }
+
+    fn run_with<S: Scheduler + 'static>(scheduler: S, case: &SCase, threads: bool) -> ShResult {
+        let coll: StdArc<StdMutex<Coll>> = StdArc::new(StdMutex::new(Coll::default()));
+        let c2 = StdArc::clone(&coll);
+        let case2 = case.clone();
+        let f = move || {
+            let log = Log::default();
+            c2.lock().unwrap().current = Some(log.clone());
+            sh_world(&case2, threads, &log);
+            let evs = log.snapshot();
+            let mut s = SStats::default();
+            let verdict = judge(&case2, &evs, true, &mut s);
+            {
+                let mut c = c2.lock().unwrap();
+                c.executions += 1;
+                if s.blocked_polls > 0 {
+                    c.traces.insert(trace_hash(&evs));
+                }
+                c.stats.blocked_polls += s.blocked_polls;
+                c.stats.reader_pending += s.reader_pending;
+                c.stats.chunks += s.chunks;
+                c.stats.short_final_chunks += s.short_final_chunks;
+                c.stats.full_at_write += s.full_at_write;
+                if c.last_trace.is_none() {
+                    c.last_trace = Some(trace_text(&evs));
+                }
+            }
+            if let Some(f) = verdict {
+                // the only way to learn the schedule from shuttle is to fail the execution; the panic is
+                // caught by the harness below and turned into a violation record
+                panic!("VERIF-ORACLE {}", json!({"what": f.what, "sig": f.sig, "detail": f.detail}));
+            }
+        };
+        let mut cfg = shuttle::Config::new();
+        cfg.stack_size = 0x40000;
+        cfg.silence_warnings = true;
+        cfg.failure_persistence = shuttle::FailurePersistence::Print;
+        let runner = shuttle::Runner::new(scheduler, cfg);
+        let res = catch(move || runner.run(f));
+        let mut c = coll.lock().unwrap_or_else(|e| e.into_inner());
+        let failure = res.err().map(|msg| {
+            let partial = c.current.as_ref().map(|l| trace_text(&l.snapshot())).unwrap_or_default();
+            let class = if msg.contains("VERIF-ORACLE") {
+                "oracle"
+            } else if msg.contains("deadlock!") {
+                "deadlock"
+            } else if msg.contains("exceeded max_steps") || msg.contains("max_steps") {
+                "step_bound"
+            } else {
+                "panic"
+            };
+            let schedule = extract_schedule(&msg);
+            (class.to_string(), msg, schedule, partial)
+        });
+        ShResult {
+            executions: c.executions,
+            traces: std::mem::take(&mut c.traces),
+            stats: c.stats.clone(),
+            failure,
+            last_trace: c.last_trace.take(),
+        }
+    }
+
+    pub(super) fn explore(case: &SCase, threads: bool, sched: Sched, iters: usize, seed: u64) -> ShResult {
+        match sched {
+            Sched::Random => run_with(RandomScheduler::new_from_seed(seed, iters), case, threads),
+            Sched::Pct(d) => run_with(PctScheduler::new_from_seed(seed, d, iters), case, threads),
+            Sched::Dfs => run_with(DfsScheduler::new(Some(iters), false), case, threads),
+        }
+    }
+
+    /// Turn the outcome of one exploration into evidence / violations.
+    fn account(rec: &mut Recorder, idx: usize, case: &SCase, threads: bool, sched: Sched, iters: usize, seed: u64, res: ShResult, st: &mut SStats) {
+        rec.evals(res.executions);
+        rec.add("sh_executions", res.executions);
+        rec.seen("sender_shapes", case.shape());
+        for t in &res.traces {
+            rec.distinct(&(fxh(case), threads, *t));
+        }
+        st.blocked_polls += res.stats.blocked_polls;
+        st.reader_pending += res.stats.reader_pending;
+        st.chunks += res.stats.chunks;
+        st.short_final_chunks += res.stats.short_final_chunks;
+        st.full_at_write += res.stats.full_at_write;
+        let wit = |schedule: &Option<String>, partial: &str, msg: &str| {
+            json!({"case": idx, "history": case.json(), "writers_as_threads": threads, "scheduler": format!("{sched:?}"),
+                   "iterations": iters, "scheduler_seed": seed, "failed_after_executions": res.executions,
+                   "schedule": schedule, "trace": partial, "message": msg.chars().take(1500).collect::<String>(), "build": "b2"})
+        };
+        match &res.failure {
+            None => {
+                if rec.want_sample() {
+                    rec.sample(json!({"history": case.json(), "writers_as_threads": threads, "scheduler": format!("{sched:?}"),
+                                      "executions": res.executions, "distinct_traces": res.traces.len(), "one_trace": res.last_trace}));
+                }
+            }
+            Some((class, msg, schedule, partial)) => match class.as_str() {
+                "deadlock" => {
+                    let evs_kind = if partial.contains("c:DONE") { "after_close" } else { "before_close" };
+                    rec.violation(
+                        "shuttle found a schedule in which the send buffer deadlocks (lost wake-up)",
+                        json!({"component": "OrderingSender", "kind": "stall:deadlock", "executor": "shuttle", "phase": evs_kind}),
+                        wit(schedule, partial, msg),
+                    );
+                }
+                "oracle" => {
+                    let body = msg.find("VERIF-ORACLE ").map(|p| &msg[p + 13..]).unwrap_or("");
+                    let end = body.find("\n").unwrap_or(body.len());
+                    let v: Value = serde_json::from_str(&body[..end]).unwrap_or(Value::Null);
+                    let mut w = wit(schedule, partial, msg);
+                    w["detail"] = v["detail"].clone();
+                    rec.violation(v["what"].as_str().unwrap_or("oracle failure under shuttle"), v["sig"].clone(), w);
+                }
+                "step_bound" => rec.inconclusive(format!("case {idx}: shuttle step bound reached: {}", msg.chars().take(200).collect::<String>())),
+                _ => {
+                    let orig = msg.find("original panic: ").map(|p| &msg[p + 16..]).unwrap_or(msg);
+                    rec.violation(
+                        "panic inside the send buffer under shuttle",
+                        json!({"component": "OrderingSender", "kind": "panic", "panic": panic_class(orig)}),
+                        wit(schedule, partial, msg),
+                    );
+                }
+            },
+        }
+    }
+
+    fn replay_schedule(rec: &mut Recorder, idx: usize, case: &SCase, threads: bool, st: &mut SStats) -> bool {
+        let Some(w) = replay_witness() else { return false };
+        let Some(s) = w["schedule"].as_str() else { return false };
+        let threads = w["writers_as_threads"].as_bool().unwrap_or(threads);
+        let res = run_with(ReplayScheduler::new_from_encoded(s), case, threads);
+        account(rec, idx, case, threads, Sched::Random, 1, 0, res, st);
+        true
+    }
+
+    fn sh_cases(seed: u64, n: usize, max_writers: usize, max_msgs: usize) -> Vec<(SCase, bool)> {
+        (0..n)
+            .map(|idx| {
+                let mut r = VRng::new(seed ^ 0xC145, idx as u64);
+                let case = gen_scase(&mut r, max_writers, max_msgs, 4, SIZES);
+                (case, r.below(3) == 0)
+            })
+            .collect()
+    }
+
+    #[test]
+    fn verif_c14_sh_random() {
+        let env = vlib::env();
+        let mut rec = Recorder::new("C14", "verif_c14_sh_random");
+        let only = replay_case();
+        let iters: usize = env.pick(500, 4000);
+        let mut st = SStats::default();
+        for (idx, (case, threads)) in sh_cases(env.seed, env.pick(96, 320), 6, 10).into_iter().enumerate() {
+            if !env.mine(idx) || only.is_some_and(|c| c != idx) {
+                continue;
+            }
+            if only.is_some() && replay_schedule(&mut rec, idx, &case, threads, &mut st) {
+                continue;
+            }
+            let seed = env.seed.wrapping_mul(0x9E37_79B9).wrapping_add(idx as u64);
+            let res = explore(&case, threads, Sched::Random, iters, seed);
+            account(&mut rec, idx, &case, threads, Sched::Random, iters, seed, res, &mut st);
+        }
+        flush_sstats(&mut rec, &st);
+        rec.finish();
+    }
+
+    #[test]
+    fn verif_c14_sh_pct() {
+        let env = vlib::env();
+        let mut rec = Recorder::new("C14", "verif_c14_sh_pct");
+        let only = replay_case();
+        let iters: usize = env.pick(500, 4000);
+        let mut st = SStats::default();
+        for (idx, (case, threads)) in sh_cases(env.seed ^ 0x77, env.pick(96, 320), 6, 10).into_iter().enumerate() {
+            if !env.mine(idx) || only.is_some_and(|c| c != idx) {
+                continue;
+            }
+            if only.is_some() && replay_schedule(&mut rec, idx, &case, threads, &mut st) {
+                continue;
+            }
+            let seed = env.seed.wrapping_mul(0x9E37_79B9).wrapping_add(idx as u64);
+            let res = explore(&case, threads, Sched::Pct(3), iters, seed);
+            account(&mut rec, idx, &case, threads, Sched::Pct(3), iters, seed, res, &mut st);
+        }
+        flush_sstats(&mut rec, &st);
+        rec.finish();
+    }
+
+    #[test]
+    fn verif_c14_sh_dfs() {
+        let env = vlib::env();
+        let mut rec = Recorder::new("C14", "verif_c14_sh_dfs");
+        let only = replay_case();
+        let iters: usize = env.pick(8000, 150000);
+        let mut st = SStats::default();
+        // 2-3 writers, one message each (plus one case with 4 messages), capacity 1-2 messages
+        let mut cases = Vec::new();
+        for (nw, n) in [(2usize, 2usize), (3, 3), (2, 3), (2, 4)] {
+            for cap_units in 1..=2usize {
+                for rs_units in 1..=cap_units {
+                    for flavour in 0..2usize {
+                        let mut writers: Vec<Vec<usize>> = vec![Vec::new(); nw];
+                        for i in 0..n {
+                            writers[if flavour == 0 { i % nw } else { (n - 1 - i) % nw }].push(i);
+                        }
+                        let joined = flavour == 1;
+                        if joined {
+                            for w in &mut writers {
+                                w.reverse();
+                            }
+                        }
+                        // DFS runs the first runnable task first: spawn the last writers first so that the
+                        // default path is the one where everybody has to wait
+                        let mut spawn_order: Vec<TaskKind> = (0..nw).rev().map(TaskKind::Writer).collect();
+                        if flavour == 0 {
+                            spawn_order.insert(0, TaskKind::Closer);
+                            spawn_order.push(TaskKind::Reader);
+                        } else {
+                            spawn_order.insert(0, TaskKind::Reader);
+                            spawn_order.push(TaskKind::Closer);
+                        }
+                        cases.push((SCase { ws: 1 + flavour, cap_units, rs_units, n, writers, joined, spawn_order }, flavour == 1 && nw == 2));
+                    }
+                }
+            }
+        }
+        for (idx, (case, threads)) in cases.into_iter().enumerate() {
+            if !env.mine(idx) || only.is_some_and(|c| c != idx) {
+                continue;
+            }
+            if only.is_some() && replay_schedule(&mut rec, idx, &case, threads, &mut st) {
+                continue;
+            }
+            let res = explore(&case, threads, Sched::Dfs, iters, 0);
+            if res.failure.is_none() && (res.executions as usize) < iters {
+                rec.count("sh_dfs_exhausted_cases");
+            }
+            account(&mut rec, idx, &case, threads, Sched::Dfs, iters, 0, res, &mut st);
+        }
+        flush_sstats(&mut rec, &st);
+        rec.finish();
+    }
+
+    // ---- UnorderedReceiver under shuttle: requests as tasks, a feeder task handing over chunks ------
+
+    fn sh_recv_world<N: ArrayLength>(sz: usize, data: &[u8], chunks: &[usize], cap: usize, reqs: &[usize]) -> Vec<(usize, RecvOut)> {
+        let _ = sz;
+        let (recv, feed) = new_receiver(cap);
+        let data = data.to_vec();
+        let chunks = chunks.to_vec();
+        let reqs = reqs.to_vec();
+        shuttle::future::block_on(async move {
+            let mut hs = Vec::new();
+            let mid = reqs.len() / 2;
+            for (k, &i) in reqs.iter().enumerate() {
+                if k == mid {
+                    let (feed, data, chunks) = (feed.clone(), data.clone(), chunks.clone());
+                    hs.push((usize::MAX, shuttle::future::spawn(async move {
+                        let mut o = 0;
+                        for c in chunks {
+                            feed.push(data[o..o + c].to_vec());
+                            o += c;
+                            shuttle::future::yield_now().await;
+                        }
+                        feed.close();
+                        RecvOut::EndOfStream
+                    })));
+                }
+                hs.push((i, shuttle::future::spawn(recv_task::<N>(recv.clone(), i))));
+            }
+            let mut out = Vec::new();
+            for (i, h) in hs {
+                let r = h.await.unwrap();
+                if i != usize::MAX {
+                    out.push((i, r));
+                }
+            }
+            out
+        })
+    }
+
+    #[test]
+    fn verif_c14_sh_recv() {
+        let env = vlib::env();
+        let mut rec = Recorder::new("C14", "verif_c14_sh_recv");
+        let only = replay_case();
+        let iters: usize = env.pick(400, 2000);
+        let n_cases: usize = env.pick(128, 512);
+        for idx in 0..n_cases {
+            if !env.mine(idx) || only.is_some_and(|c| c != idx) {
+                continue;
+            }
+            let mut r = VRng::new(env.seed ^ 0xC146, idx as u64);
+            let sz = *r.choose(&[1usize, 2, 3, 4]);
+            let n_complete = r.range(1, 9) as usize;
+            let tail = r.below(sz as u64) as usize;
+            let data: Vec<u8> = (0..n_complete * sz + tail).map(|k| (k * 17 + 3) as u8).collect();
+            let mut chunks = Vec::new();
+            let mut left = data.len();
+            while left > 0 {
+                let c = (r.range(1, 2 * sz as u64 + 1) as usize).min(left);
+                chunks.push(c);
+                left -= c;
+            }
+            let cap = r.range(2, 4) as usize;
+            let mut reqs: Vec<usize> = (0..n_complete + (r.below(2) as usize)).collect();
+            if r.bool() {
+                reqs.reverse();
+            } else {
+                r.shuffle(&mut reqs);
+            }
+            let desc = json!({"message_size": sz, "stream": hex(&data), "chunks": chunks, "capacity": cap, "requests(spawn order)": reqs});
+            let coll: StdArc<StdMutex<(u64, HashSet<u64>)>> = StdArc::new(StdMutex::new((0, HashSet::new())));
+            let c2 = StdArc::clone(&coll);
+            let (d2, ch2, rq2) = (data.clone(), chunks.clone(), reqs.clone());
+            let f = move || {
+                let out = with_ws!(sz, N => sh_recv_world::<N>(sz, &d2, &ch2, cap, &rq2));
+                let mut bad: Option<Value> = None;
+                for (i, o) in &out {
+                    let ok = if *i < n_complete { *o == RecvOut::Msg(d2[i * sz..(i + 1) * sz].to_vec()) } else { *o == RecvOut::EndOfStream };
+                    if !ok && bad.is_none() {
+                        bad = Some(json!({"request": i, "got": format!("{o:?}")}));
+                    }
+                }
+                let mut c = c2.lock().unwrap();
+                c.0 += 1;
+                if let Some(b) = bad {
+                    drop(c);
+                    panic!("VERIF-ORACLE {b}");
+                }
+            };
+            let mut cfg = shuttle::Config::new();
+            cfg.stack_size = 0x40000;
+            cfg.silence_warnings = true;
+            let seed = env.seed.wrapping_mul(0x9E37_79B9).wrapping_add(idx as u64);
+            let res = if idx % 2 == 0 {
+                let runner = shuttle::Runner::new(RandomScheduler::new_from_seed(seed, iters), cfg);
+                catch(move || runner.run(f))
+            } else {
+                let runner = shuttle::Runner::new(PctScheduler::new_from_seed(seed, 3, iters), cfg);
+                catch(move || runner.run(f))
+            };
+            let execs = coll.lock().unwrap_or_else(|e| e.into_inner()).0;
+            rec.evals(execs);
+            rec.add("sh_recv_executions", execs);
+            match res {
+                Ok(_) => {
+                    rec.distinct(&(idx, "recv"));
+                    if rec.want_sample() {
+                        rec.sample(json!({"receiver_case": desc, "executions": execs}));
+                    }
+                }
+                Err(msg) => {
+                    let kind = if msg.contains("VERIF-ORACLE") {
+                        "wrong_message"
+                    } else if msg.contains("deadlock!") {
+                        "stall:deadlock"
+                    } else {
+                        "panic"
+                    };
+                    rec.violation(
+                        "receive buffer failed under a shuttle schedule",
+                        json!({"component": "UnorderedReceiver", "kind": kind, "executor": "shuttle"}),
+                        json!({"case": idx, "receiver_case": desc, "scheduler_seed": seed, "iterations": iters,
+                               "schedule": extract_schedule(&msg), "message": msg.chars().take(1500).collect::<String>(), "build": "b2"}),
+                    );
+                }
+            }
+        }
+        rec.finish();
+    }
+}
+
+// ---------------------------------------------------------------------------------------------
+// (D) small workloads on plain std threads + futures::executor (no tokio): the Miri targets.
+//     The same workloads run natively in b1 through `verif_c14_small_native_x1`.
+//     Hangs are not decided here (the other executors do that); these exist for UB / data-race reports and
+//     re-check the functional oracle on whatever interleaving the interpreter or the OS produces.
+// ---------------------------------------------------------------------------------------------
+
+#[cfg(not(feature = "shuttle"))]
+mod small {
+    use super::*;
+
+    fn ring_workload(rec: &mut Recorder) {
+        let mut stats = RingStats::default();
+        for (k, (cap, ws, rs, ops)) in [
+            (3usize, 1usize, 2usize, "WWWTWWTWCTT"),
+            (6, 2, 4, "WWWTWWWTWWTCTWT"),
+            (5, 5, 5, "WTWTWTWWCCT"),
+            (12, 3, 6, "WWWWTWWTWWWTWTCTTT"),
+        ]
+        .into_iter()
+        .enumerate()
+        {
+            rec.eval();
+            let mut ring = Ring::new(cap, ws, rs).expect("valid parameters");
+            let mut res = Ok(true);
+            for c in ops.chars() {
+                res = ring.step(match c {
+                    'W' => Op::Write,
+                    'T' => Op::Take,
+                    _ => Op::Close,
+                });
+                if res.is_err() {
+                    break;
+                }
+            }
+            merge_ring(&mut stats, &ring.stats);
+            match res {
+                Err(f) => report(rec, f, k, json!({"workload": "ring"})),
+                Ok(_) => rec.distinct(&("ring", k)),
+            }
+        }
+        flush_ring_stats(rec, &stats);
+    }
+
+    fn deadline() -> std::time::Duration {
+        std::time::Duration::from_secs(if cfg!(miri) { 600 } else { 10 })
+    }
+
+    /// Join threads, giving up after `deadline()`; `None` = some thread did not finish (threads are leaked).
+    fn join_all_timed<T: Send + 'static>(hs: Vec<std::thread::JoinHandle<T>>) -> Option<Vec<T>> {
+        let (tx, rx) = std::sync::mpsc::channel();
+        let n = hs.len();
+        for (k, h) in hs.into_iter().enumerate() {
+            let tx = tx.clone();
+            std::thread::spawn(move || {
+                let _ = tx.send((k, h.join()));
+            });
+        }
+        let end = std::time::Instant::now() + deadline();
+        let mut out: Vec<Option<T>> = (0..n).map(|_| None).collect();
+        for _ in 0..n {
+            let left = end.saturating_duration_since(std::time::Instant::now());
+            match rx.recv_timeout(left) {
+                Ok((k, Ok(v))) => out[k] = Some(v),
+                Ok((_, Err(p))) => std::panic::resume_unwind(p),
+                Err(_) => return None,
+            }
+        }
+        Some(out.into_iter().map(Option::unwrap).collect())
+    }
+
+    fn thread_world<N: ArrayLength>(case: &SCase) -> (Vec<Ev>, bool, Vec<String>) {
+        let sender = CArc::new(case.new_sender());
+        let log = Log::default();
+        let mut hs = Vec::new();
+        for t in &case.spawn_order {
+            let (s, l) = (CArc::clone(&sender), log.clone());
+            let h = match *t {
+                TaskKind::Writer(w) => {
+                    let (idxs, joined) = (case.writers[w].clone(), case.joined);
+                    std::thread::spawn(move || catch(|| futures::executor::block_on(writer_task::<N>(s, idxs, joined, l))))
+                }
+                TaskKind::Closer => {
+                    let n = case.n;
+                    std::thread::spawn(move || catch(|| futures::executor::block_on(closer_task(s, n, l))))
+                }
+                TaskKind::Reader => {
+                    let max_chunks = case.n + 2;
+                    std::thread::spawn(move || catch(|| futures::executor::block_on(reader_task(s, l, max_chunks))))
+                }
+            };
+            hs.push(h);
+        }
+        let res = join_all_timed(hs);
+        let finished = res.is_some();
+        let panics: Vec<String> = res.unwrap_or_default().into_iter().filter_map(Result::err).collect();
+        (log.snapshot(), finished, panics)
+    }
+
+    fn sender_workload(rec: &mut Recorder, rounds: usize) {
+        let mut st = SStats::default();
+        let w = TaskKind::Writer;
+        let cases = [
+            SCase { ws: 1, cap_units: 1, rs_units: 1, n: 4, writers: vec![vec![0, 2], vec![1, 3]], joined: false,
+                    spawn_order: vec![w(1), TaskKind::Closer, w(0), TaskKind::Reader] },
+            SCase { ws: 2, cap_units: 2, rs_units: 2, n: 5, writers: vec![vec![4, 0], vec![3, 1], vec![2]], joined: true,
+                    spawn_order: vec![TaskKind::Reader, w(2), w(1), w(0), TaskKind::Closer] },
+            SCase { ws: 4, cap_units: 3, rs_units: 2, n: 7, writers: vec![vec![0, 1, 5], vec![2, 3, 4, 6]], joined: false,
+                    spawn_order: vec![w(0), w(1), TaskKind::Reader, TaskKind::Closer] },
+        ];
+        for round in 0..rounds {
+            for (k, case) in cases.iter().enumerate() {
+                rec.eval();
+                let (evs, finished, panics) = with_ws!(case.ws, N => thread_world::<N>(case));
+                if let Some(p) = panics.first() {
+                    rec.violation(
+                        "panic inside the send buffer",
+                        json!({"component": "OrderingSender", "kind": "panic", "panic": panic_class(p)}),
+                        json!({"case": k, "history": case.json(), "executor": "std threads", "panic": p, "trace": trace_text(&evs)}),
+                    );
+                    flush_sstats(rec, &st);
+                    return;
+                }
+                if !finished {
+                    // wall time is not a verdict: try to reproduce deterministically, else inconclusive
+                    if let Some(f) = judge(case, &evs, false, &mut SStats::default()) {
+                        report(rec, f, k, json!({"workload": "sender on std threads", "history": case.json(), "trace": trace_text(&evs)}));
+                    } else if let Some((f, run)) = super::native::reclassify(case, 1) {
+                        report(rec, f, k, json!({"workload": "sender on std threads, re-run on the poll scheduler", "history": case.json(),
+                               "picks": run.picks, "trace": trace_text(&run.evs), "thread_trace": trace_text(&evs)}));
+                    } else {
+                        rec.inconclusive(format!("small sender workload {k} did not finish on std threads; partial trace: {}", trace_text(&evs)));
+                    }
+                    flush_sstats(rec, &st);
+                    return;
+                }
+                match judge(case, &evs, true, &mut st) {
+                    Some(f) => report(rec, f, k, json!({"workload": "sender on std threads", "history": case.json(), "trace": trace_text(&evs)})),
+                    None => {
+                        rec.distinct(&("sender", k, trace_hash(&evs)));
+                        if round == 0 && rec.want_sample() {
+                            rec.sample(json!({"history": case.json(), "trace": trace_text(&evs)}));
+                        }
+                    }
+                }
+            }
+        }
+        flush_sstats(rec, &st);
+    }
+
+    fn recv_thread_world<N: ArrayLength>(data: &[u8], chunks: &[usize], cap: usize, reqs: &[usize]) -> Option<Vec<(usize, RecvOut)>> {
+        let (recv, feed) = new_receiver(cap);
+        let hs: Vec<_> = reqs
+            .iter()
+            .map(|&i| {
+                let r = recv.clone();
+                std::thread::spawn(move || (i, futures::executor::block_on(recv_task::<N>(r, i))))
+            })
+            .collect();
+        let mut o = 0;
+        for &c in chunks {
+            feed.push(data[o..o + c].to_vec());
+            o += c;
+            std::thread::yield_now();
+        }
+        feed.close();
+        join_all_timed(hs)
+    }
+
+    fn recv_workload(rec: &mut Recorder, rounds: usize) {
+        let data: Vec<u8> = (0..13usize).map(|k| (k * 17 + 3) as u8).collect();
+        let cases: [(usize, &[usize], usize, &[usize]); 3] = [
+            (2, &[1, 4, 3, 5], 2, &[5, 6, 3, 4, 1, 2, 0]),
+            (3, &[13], 3, &[3, 2, 1, 0, 4]),
+            (4, &[2, 2, 2, 2, 2, 2, 1], 2, &[2, 0, 1, 3]),
+        ];
+        for _ in 0..rounds {
+            for (k, (sz, chunks, cap, reqs)) in cases.iter().enumerate() {
+                rec.eval();
+                let n_complete = data.len() / sz;
+                let out = with_ws!(*sz, N => recv_thread_world::<N>(&data, chunks, *cap, reqs));
+                let Some(out) = out else {
+                    // wall time is not a verdict: replay the same case on the poll scheduler
+                    let case = RCase { sz: *sz, data: data.clone(), chunks: chunks.to_vec(), cap: *cap, reqs: reqs.to_vec(), lifo: false,
+                                       script: recv_script(reqs.len(), chunks.len(), 0) };
+                    match super::native_recv::recv_run(&case, &mut RStats::default()) {
+                        Some(f) => report(rec, f, k, json!({"workload": "receiver on std threads, re-run on the poll scheduler", "receiver_case": case.json()})),
+                        None => rec.inconclusive(format!("small receiver workload {k} did not finish on std threads")),
+                    }
+                    return;
+                };
+                let mut ok = true;
+                for (i, o) in &out {
+                    let good = if *i < n_complete { *o == RecvOut::Msg(data[i * sz..(i + 1) * sz].to_vec()) } else { *o == RecvOut::EndOfStream };
+                    if !good {
+                        ok = false;
+                        rec.violation(
+                            "recv(i) did not return the i-th message of the stream",
+                            json!({"component": "UnorderedReceiver", "kind": "wrong_message", "executor": "std threads"}),
+                            json!({"case": k, "message_size": sz, "chunks": chunks, "capacity": cap, "requests": reqs, "request": i, "got": format!("{o:?}")}),
+                        );
+                    }
+                }
+                if ok {
+                    rec.distinct(&("recv", k));
+                    rec.add("recv_resolved_ok", out.iter().filter(|(_, o)| matches!(o, RecvOut::Msg(_))).count() as u64);
+                }
+            }
+        }
+    }
+
+    #[test]
+    fn verif_c14_miri_small_x1() {
+        let mut rec = Recorder::new("C14", "verif_c14_miri_small_x1");
+        ring_workload(&mut rec);
+        sender_workload(&mut rec, 1);
+        recv_workload(&mut rec, 1);
+        rec.finish();
+    }
+
+    #[test]
+    fn verif_c14_small_native_x1() {
+        let env = vlib::env();
+        let mut rec = Recorder::new("C14", "verif_c14_small_native_x1");
+        ring_workload(&mut rec);
+        sender_workload(&mut rec, env.pick(100, 1000));
+        recv_workload(&mut rec, env.pick(100, 1000));
+        rec.finish();
+    }
+}
